@@ -4,14 +4,20 @@
 //!   CODECS                                   -> `name:ext,ext:magichex;...`  (running registry vs generated table)
 //!   LOWER <path>                             -> hex of the ASCII shape of `to_lowercase()` (non-ASCII runs -> `?`)
 //!   DETECT <path> <content>                  -> `R=<codec|plain> W=<codec|plain>`  decision of auto_detect_reader / _writer
-//!   DETECTS <sched> <path> <content>         -> `R=<codec|plain>`  decision of auto_detect_reader on a `Read` whose i-th call
-//!                                               returns at most sched[i] bytes (`-` = every call fills the buffer)
+//!   DETECTS <sched> <faults> <path> <content> -> `R=<codec|plain|ERR>`  decision of auto_detect_reader on a `Read` whose i-th
+//!                                               successful call returns at most sched[i] bytes (`-` = every call fills the
+//!                                               buffer) and which raises the I/O faults `<offset>i` (Interrupted) / `<offset>e`
+//!                                               (another error, once) in front of the byte at that offset
 //!   RT <writer> <reader> <path> <plain> <opts>      -> `W=<codec|plain|other> R=<SAME|FAIL>`  write through an entry point, read back
 //!   RD <reader> <path> C <codec> <plain> <opts>     -> `DECODED|VERBATIM|FAIL`  file = genuine <codec> stream of <plain>
 //!   RD <reader> <path> P <raw> <opts>               -> `VERBATIM|FAIL`          file = these raw bytes
 //!   CGLOB <local_jsonl|local_csv|cloud_jsonl> <opts> (<path> <writer> <plain>)*  -> `W=<c1>,<c2>,.. R=<SAME|FAIL>`
 //!        every file written through its own writer entry point under its own name, all read through ONE glob call
-//!   opts = `sh=<k>,per=<k>,par=<0|1>,hdr=<0|1>` (writer shards, streaming shard size, collect_par?, csv header flag)
+//!   ODETECT <rawname> <lossy> <content>, ORT <rawname> <writer> <reader> <lossy> <plain> <opts>
+//!        DETECT / RT for a file name that is not valid UTF-8 (`OsStr::from_bytes`); <lossy> = its `to_string_lossy()`
+//!   XREG <fresh|used> <extras> <KIND> ...    -> KIND in {CODECS, DETECT, DETECTS, RT, RD} evaluated in a CHILD PROCESS that
+//!        registered two user codecs with `register_codec` (`fresh`: before any other registry use; `used`: after a detection)
+//!   opts = `sh=<k|none>,per=<k>,par=<0|1>,hdr=<0|1>` (writer shards, streaming shard size, collect_par?, csv header flag)
 //!
 //! Real side: the real entry points on real temp files / the fake object store. The decision of
 //! `auto_detect_reader` / `auto_detect_writer` is observed from the outside: the bytes that come out are
@@ -20,20 +26,30 @@
 //! Oracle (independent of the model, uses only the format specifications below): a path carrying a codec
 //! extension (ASCII case-insensitive) is stored as a genuine stream of that codec that starts with the
 //! format's signature and reads back identical; a neutral name with content that does not start with a
-//! true signature is stored and read back verbatim; genuine streams under a neutral name are decoded.
+//! true signature is stored and read back verbatim; genuine streams under a neutral name are decoded; a source
+//! fault is reported or harmless, never a silently different result.
+//!
+//! Run hygiene (no verdict depends on luck, timing or load): every oracle failure is CONFIRMED BY RE-EXECUTION of the
+//! case (a failure that does not repeat is a note, not a verdict); the concurrent blocks only have deterministic
+//! expectations (contention raises their power, never their verdict); a stall watchdog (15 min without a finished case)
+//! ends the run; the registry children get 10 min and one retry; an xz encoder that cannot be created in this
+//! environment (memory limit) removes the xz cases with a note.
 
 use crate::ctx::{Ctx, guarded, hex};
 use ironbeam::io::cloud::readers::{read_cloud_jsonl_glob, read_cloud_jsonl_vec, write_cloud_jsonl_vec};
 use ironbeam::io::cloud::{FakeObjectIO, ObjectIO};
-use ironbeam::io::compression::{auto_detect_reader, auto_detect_writer, verif_codec_table};
+use ironbeam::io::compression::{CompressionCodec, auto_detect_reader, auto_detect_writer, register_codec, verif_codec_table};
 use ironbeam::{
     Pipeline, from_vec, read_csv, read_csv_streaming, read_csv_vec, read_jsonl, read_jsonl_streaming,
-    read_jsonl_vec, write_csv_par, write_csv_vec, write_jsonl_par,
+    read_jsonl_vec, write_csv, write_csv_par, write_csv_vec, write_jsonl_par,
 };
 use ironbeam::io::jsonl::write_jsonl_vec;
 use serde::{Deserialize, Serialize};
+use std::collections::VecDeque;
 use std::io::{Cursor, Read, Write};
+use std::os::unix::ffi::OsStrExt;
 use std::path::{Path, PathBuf};
+use std::sync::atomic::{AtomicBool, AtomicU64, Ordering};
 use std::sync::{Arc, Mutex};
 
 /// The specification: (name, documented extensions, true format signature).
@@ -44,6 +60,48 @@ const SPEC: [(&str, &[&str], &[u8]); 4] = [
     ("bzip2", &[".bz2", ".bzip2"], &[0x42, 0x5a, 0x68]),
     ("xz", &[".xz"], &[0xfd, 0x37, 0x7a, 0x58, 0x5a, 0x00]),
 ];
+
+/// The user codecs the registry child registers (name, extensions, magic bytes): one with magic bytes,
+/// one without, one whose extension / magic overlap built-in ones. Their stream formats are defined by `enc` / `dec` below; the registered objects
+/// (`UserCodec`) implement the same formats as `Read` / `Write` adaptors.
+const USERS: [(&str, &[&str], Option<&[u8]>); 3] = [
+    ("noop", &[".noop"], Some(&[0xff, 0xfe])),
+    ("rot", &[".rot", ".myext"], None),
+    // a codec that WOULD shadow built-ins if it came first: its extension `z` is a suffix of `.gz` / `.xz`, its
+    // magic `1f` a prefix of gzip's — registry ORDER (built-ins first) is what keeps `x.gz` and gzip streams gzip
+    ("zed", &["z"], Some(&[0x1f])),
+];
+const ZED_HEADER: &[u8] = &[0x1f, b'Z', b'E', b'D'];
+const NOOP_HEADER: &[u8] = &[0xff, 0xfe, b'N', b'O', b'O', b'P', b'1'];
+const ROT_HEADER: &[u8] = b"ROT:";
+
+/// true in the registry child: the specification then also lists the user codecs
+static WITH_USERS: AtomicBool = AtomicBool::new(false);
+/// prefix of every request line (the registry child: `XREG <pre> <extras> `)
+static PREFIX: Mutex<String> = Mutex::new(String::new());
+/// progress counter for the stall watchdog
+static HEART: AtomicU64 = AtomicU64::new(0);
+/// per built-in codec: false when this environment cannot run the codec's own library (e.g. an xz preset-6 encoder
+/// needs ~94 MiB; under a tight memory limit its creation fails): that codec's cases are skipped with a note
+static CODEC_OK: [AtomicBool; 4] = [AtomicBool::new(true), AtomicBool::new(true), AtomicBool::new(true), AtomicBool::new(true)];
+fn codec_ok(c: &str) -> bool {
+    SPEC.iter().position(|x| x.0 == c).is_none_or(|k| CODEC_OK[k].load(Ordering::SeqCst))
+}
+
+/// every codec of the specification in detection order: (name, extensions, signature / magic if any)
+fn all_codecs() -> Vec<(&'static str, &'static [&'static str], Option<&'static [u8]>)> {
+    let mut v: Vec<_> = SPEC.iter().map(|x| (x.0, x.1, Some(x.2))).collect();
+    if WITH_USERS.load(Ordering::SeqCst) {
+        v.extend(USERS.iter().copied());
+    }
+    v
+}
+
+fn emit(cx: &mut Ctx, req: String, real: String, nt: bool) -> usize {
+    HEART.fetch_add(1, Ordering::SeqCst);
+    let p = PREFIX.lock().unwrap().clone();
+    cx.case(format!("{p}{req}"), real, nt)
+}
 
 // ---------------------------------------------------------------------------------------------
 // translator route: the running registry as a Lean table
@@ -85,7 +143,29 @@ pub fn tables(out: &mut String) {
 // independent codecs (the libraries themselves, not ironbeam's wrappers)
 // ---------------------------------------------------------------------------------------------
 
+fn enc_xz(plain: &[u8], preset: u32) -> Vec<u8> {
+    let mut e = xz2::write::XzEncoder::new(Vec::new(), preset);
+    e.write_all(plain).unwrap();
+    e.finish().unwrap()
+}
+
+/// `enc_raw` with confirm-by-re-execution: an encoder that cannot be created (memory) is retried; if it keeps
+/// failing the codec is marked unavailable for the rest of the run (its cases are skipped) and `None` is returned
+fn try_enc(c: &str, plain: &[u8]) -> Option<Vec<u8>> {
+    for attempt in 0..3u64 {
+        if let Ok(v) = guarded(|| enc_raw(c, plain)) { return Some(v); }
+        std::thread::sleep(std::time::Duration::from_millis(100 * (attempt + 1)));
+    }
+    if let Some(k) = SPEC.iter().position(|x| x.0 == c) { CODEC_OK[k].store(false, Ordering::SeqCst); }
+    None
+}
+/// for call sites guarded by `codec_ok` / `xz_skipped`: an empty vector if the library fails after all (the codec
+/// is then unavailable and every later case of it is skipped; the run notes say so)
 fn enc(c: &str, plain: &[u8]) -> Vec<u8> {
+    try_enc(c, plain).unwrap_or_default()
+}
+
+fn enc_raw(c: &str, plain: &[u8]) -> Vec<u8> {
     match c {
         "gzip" => {
             let mut e = flate2::write::GzEncoder::new(Vec::new(), flate2::Compression::default());
@@ -98,11 +178,14 @@ fn enc(c: &str, plain: &[u8]) -> Vec<u8> {
             e.write_all(plain).unwrap();
             e.finish().unwrap()
         }
-        "xz" => {
-            let mut e = xz2::write::XzEncoder::new(Vec::new(), 6);
-            e.write_all(plain).unwrap();
-            e.finish().unwrap()
+        "xz" => enc_xz(plain, 6),
+        "noop" => [NOOP_HEADER, plain].concat(),
+        "rot" => {
+            let mut v = ROT_HEADER.to_vec();
+            v.extend(plain.iter().map(|b| b ^ 0x5a));
+            v
         }
+        "zed" => [ZED_HEADER, plain].concat(),
         _ => unreachable!(),
     }
 }
@@ -125,7 +208,83 @@ fn dec(c: &str, data: &[u8]) -> Result<Vec<u8>, String> {
         },
         "bzip2" => drain(bzip2::read::BzDecoder::new(cur)),
         "xz" => drain(xz2::read::XzDecoder::new(cur)),
+        "noop" => match data.strip_prefix(NOOP_HEADER) {
+            Some(rest) => Ok(rest.to_vec()),
+            None => Err("noop header missing".into()),
+        },
+        "rot" => match data.strip_prefix(ROT_HEADER) {
+            Some(rest) => Ok(rest.iter().map(|b| b ^ 0x5a).collect()),
+            None => Err("rot header missing".into()),
+        },
+        "zed" => match data.strip_prefix(ZED_HEADER) {
+            Some(rest) => Ok(rest.to_vec()),
+            None => Err("zed header missing".into()),
+        },
         _ => unreachable!(),
+    }
+}
+
+// ---------------------------------------------------------------------------------------------
+// the user codecs as registered objects (registry child only)
+// ---------------------------------------------------------------------------------------------
+
+struct UserCodec {
+    name: &'static str,
+    exts: &'static [&'static str],
+    magic: Option<&'static [u8]>,
+    header: &'static [u8],
+    xor: u8,
+}
+struct HdrWriter { inner: Box<dyn Write>, header: Option<&'static [u8]>, xor: u8 }
+impl HdrWriter {
+    fn put_header(&mut self) -> std::io::Result<()> {
+        if let Some(h) = self.header.take() { self.inner.write_all(h)?; }
+        Ok(())
+    }
+}
+impl Write for HdrWriter {
+    fn write(&mut self, b: &[u8]) -> std::io::Result<usize> {
+        self.put_header()?;
+        let t: Vec<u8> = b.iter().map(|x| x ^ self.xor).collect();
+        self.inner.write_all(&t)?;
+        Ok(b.len())
+    }
+    fn flush(&mut self) -> std::io::Result<()> {
+        self.put_header()?;
+        self.inner.flush()
+    }
+}
+impl Drop for HdrWriter {
+    fn drop(&mut self) {
+        let _ = self.put_header();
+        let _ = self.inner.flush();
+    }
+}
+struct HdrReader { inner: Box<dyn Read>, header: &'static [u8], checked: bool, xor: u8, what: &'static str }
+impl Read for HdrReader {
+    fn read(&mut self, buf: &mut [u8]) -> std::io::Result<usize> {
+        if !self.checked {
+            let mut h = vec![0u8; self.header.len()];
+            let ok = self.inner.read_exact(&mut h).is_ok() && h == self.header;
+            if !ok {
+                return Err(std::io::Error::new(std::io::ErrorKind::InvalidData, format!("{} header missing", self.what)));
+            }
+            self.checked = true;
+        }
+        let n = self.inner.read(buf)?;
+        for b in &mut buf[..n] { *b ^= self.xor; }
+        Ok(n)
+    }
+}
+impl CompressionCodec for UserCodec {
+    fn name(&self) -> &str { self.name }
+    fn extensions(&self) -> &[&str] { self.exts }
+    fn magic_bytes(&self) -> Option<&[u8]> { self.magic }
+    fn wrap_reader_dyn(&self, reader: Box<dyn Read>) -> std::io::Result<Box<dyn Read>> {
+        Ok(Box::new(HdrReader { inner: reader, header: self.header, checked: false, xor: self.xor, what: self.name }))
+    }
+    fn wrap_writer_dyn(&self, writer: Box<dyn Write>) -> std::io::Result<Box<dyn Write>> {
+        Ok(Box::new(HdrWriter { inner: writer, header: Some(self.header), xor: self.xor }))
     }
 }
 
@@ -133,21 +292,23 @@ fn dec(c: &str, data: &[u8]) -> Result<Vec<u8>, String> {
 // specification helpers (oracle side)
 // ---------------------------------------------------------------------------------------------
 
-/// codec whose documented extension the path carries (ASCII case-insensitive suffix)
-fn spec_ext(path: &str) -> Option<&'static str> {
-    let p = path.to_ascii_lowercase();
-    for (n, exts, _) in SPEC {
+/// codec whose documented extension the name carries (ASCII case-insensitive suffix of the name's BYTES, so that
+/// it also applies to names that are not valid UTF-8)
+fn spec_ext_bytes(name: &[u8]) -> Option<&'static str> {
+    let p = name.to_ascii_lowercase();
+    for (n, exts, _) in all_codecs() {
         for e in exts {
-            if p.ends_with(e) {
+            if p.ends_with(e.as_bytes()) {
                 return Some(n);
             }
         }
     }
     None
 }
-/// codec whose true signature the content starts with
+fn spec_ext(path: &str) -> Option<&'static str> { spec_ext_bytes(path.as_bytes()) }
+/// codec whose true signature (a user codec: its magic bytes) the content starts with
 fn spec_sig(content: &[u8]) -> Option<&'static str> {
-    SPEC.iter().find(|(_, _, s)| content.starts_with(s)).map(|x| x.0)
+    all_codecs().iter().find(|(_, _, s)| s.is_some_and(|s| content.starts_with(s))).map(|x| x.0)
 }
 
 /// which codec (or none) turned `plain` into `stored`
@@ -155,12 +316,39 @@ fn classify_stored(stored: &[u8], plain: &[u8]) -> String {
     if stored == plain {
         return "plain".into();
     }
-    for (n, _, sig) in SPEC {
-        if stored.starts_with(sig) && dec(n, stored).as_deref() == Ok(plain) {
+    for (n, _, sig) in all_codecs() {
+        if stored.starts_with(sig.unwrap_or(&[])) && dec(n, stored).as_deref() == Ok(plain) {
             return n.to_string();
         }
     }
     "other".into()
+}
+
+/// Which decision of `auto_detect_reader` is the observed outcome `got` consistent with? The decision itself is
+/// not observable; what comes out of the returned reader is compared with what every codec's own library (and the
+/// identity) makes of the same bytes. When several decisions explain the outcome (e.g. two decoders reject the
+/// bytes with the same message, or a decoder returns its input), the one the SPECIFICATION demands (`want`) is
+/// reported if it is among them — an outcome that is consistent with the specified decision is not evidence
+/// against it; an outcome that is not consistent with it is reported as what it is consistent with.
+fn classify_read(got: &Result<Vec<u8>, String>, content: &[u8], want: &str) -> String {
+    let mut cands: Vec<&str> = vec![];
+    if got.as_deref() == Ok(content) { cands.push("plain"); }
+    let decs: Vec<(&str, Result<Vec<u8>, String>)> = all_codecs().iter().map(|(n, _, _)| (*n, dec(n, content))).collect();
+    for (n, d) in &decs {
+        if d == got { cands.push(n); }
+    }
+    if cands.is_empty() && got.is_err() {
+        // an error with an unexpected text: consistent with every decoder that rejects these bytes
+        for (n, d) in &decs {
+            if d.is_err() { cands.push(n); }
+        }
+    }
+    if cands.contains(&want) { return want.to_string(); }
+    match cands.len() {
+        1 => cands[0].to_string(),
+        0 => "UNKNOWN".into(),
+        _ => format!("AMBIG({})", cands.join("|")),
+    }
 }
 
 // ---------------------------------------------------------------------------------------------
@@ -174,12 +362,12 @@ struct Row {
 }
 
 #[derive(Clone, Copy, PartialEq, Eq, Debug)]
-enum W { Raw, JsonlVec, JsonlPar, CsvVec, CsvPar, PcJsonl, PcJsonlPar, PcCsv, PcCsvPar, CloudJsonl }
+enum W { Raw, JsonlVec, JsonlPar, CsvVec, CsvAlias, CsvPar, PcJsonl, PcJsonlPar, PcCsv, PcCsvPar, CloudJsonl }
 #[derive(Clone, Copy, PartialEq, Eq, Debug)]
 enum R { Raw, JsonlVec, JsonlHelper, JsonlStreaming, CsvVec, CsvHelper, CsvStreaming, CloudJsonl }
 
 const J_WRITERS: [W; 6] = [W::Raw, W::JsonlVec, W::JsonlPar, W::PcJsonl, W::PcJsonlPar, W::CloudJsonl];
-const C_WRITERS: [W; 5] = [W::Raw, W::CsvVec, W::CsvPar, W::PcCsv, W::PcCsvPar];
+const C_WRITERS: [W; 6] = [W::Raw, W::CsvVec, W::CsvPar, W::PcCsv, W::PcCsvPar, W::CsvAlias];
 const J_READERS: [R; 5] = [R::Raw, R::JsonlVec, R::JsonlHelper, R::JsonlStreaming, R::CloudJsonl];
 const C_READERS: [R; 4] = [R::Raw, R::CsvVec, R::CsvHelper, R::CsvStreaming];
 
@@ -187,7 +375,7 @@ impl W {
     fn tok(self) -> &'static str {
         match self {
             W::Raw => "raw", W::JsonlVec => "jsonl_vec", W::JsonlPar => "jsonl_par", W::CsvVec => "csv_vec",
-            W::CsvPar => "csv_par", W::PcJsonl => "pc_jsonl", W::PcJsonlPar => "pc_jsonl_par",
+            W::CsvAlias => "csv_alias", W::CsvPar => "csv_par", W::PcJsonl => "pc_jsonl", W::PcJsonlPar => "pc_jsonl_par",
             W::PcCsv => "pc_csv", W::PcCsvPar => "pc_csv_par", W::CloudJsonl => "cloud_jsonl",
         }
     }
@@ -244,7 +432,7 @@ struct Env {
     next: usize,
 }
 impl Env {
-    fn fresh(&mut self, rel: &str) -> PathBuf {
+    fn fresh(&mut self, rel: &Path) -> PathBuf {
         self.next += 1;
         let d = self.root.join(format!("{}", self.next));
         d.join(rel)
@@ -259,8 +447,25 @@ fn e2s<T, E: std::fmt::Display>(r: Result<T, E>) -> Result<T, String> {
     r.map_err(|e| format!("{e:#}"))
 }
 
+/// `glob::Pattern::escape`: the pattern that matches exactly this path (identity for paths without `*?[]`).
+/// `read_jsonl` / `read_csv` take a PATTERN: a literal name that contains a metacharacter has to be escaped by the
+/// caller, and so has a temp directory whose own name contains one.
+fn glob_escape(p: &str) -> String {
+    let mut o = String::new();
+    for c in p.chars() {
+        match c {
+            '*' => o.push_str("[*]"),
+            '?' => o.push_str("[?]"),
+            '[' => o.push_str("[[]"),
+            ']' => o.push_str("[]]"),
+            c => o.push(c),
+        }
+    }
+    o
+}
+
 /// run a writer entry point; returns the stored bytes
-fn real_write(w: W, path: &Path, key: &str, pl: &Payload, shards: usize) -> Result<Vec<u8>, String> {
+fn real_write(w: W, path: &Path, key: &str, pl: &Payload, shards: Option<usize>) -> Result<Vec<u8>, String> {
     if let Some(parent) = path.parent() {
         let _ = std::fs::create_dir_all(parent);
     }
@@ -281,16 +486,17 @@ fn real_write(w: W, path: &Path, key: &str, pl: &Payload, shards: usize) -> Resu
             Ok(v)
         }
         W::JsonlVec => from_file(e2s(write_jsonl_vec(path, recs))),
-        W::JsonlPar => from_file(e2s(write_jsonl_par(path, recs, Some(shards)))),
+        W::JsonlPar => from_file(e2s(write_jsonl_par(path, recs, shards))),
         W::CsvVec => from_file(e2s(write_csv_vec(path, h, recs))),
-        W::CsvPar => from_file(e2s(write_csv_par(path, recs, Some(shards), h))),
+        W::CsvAlias => from_file(e2s(write_csv(path, h, &recs.to_vec()))),
+        W::CsvPar => from_file(e2s(write_csv_par(path, recs, shards, h))),
         W::PcJsonl => {
             let p = Pipeline::default();
             from_file(e2s(from_vec(&p, recs.to_vec()).write_jsonl(path)))
         }
         W::PcJsonlPar => {
             let p = Pipeline::default();
-            from_file(e2s(from_vec(&p, recs.to_vec()).write_jsonl_par(path, Some(shards))))
+            from_file(e2s(from_vec(&p, recs.to_vec()).write_jsonl_par(path, shards)))
         }
         W::PcCsv => {
             let p = Pipeline::default();
@@ -298,7 +504,7 @@ fn real_write(w: W, path: &Path, key: &str, pl: &Payload, shards: usize) -> Resu
         }
         W::PcCsvPar => {
             let p = Pipeline::default();
-            from_file(e2s(from_vec(&p, recs.to_vec()).write_csv_par(path, None, h)))
+            from_file(e2s(from_vec(&p, recs.to_vec()).write_csv_par(path, shards, h)))
         }
         W::CloudJsonl => {
             let st = FakeObjectIO::new();
@@ -318,6 +524,10 @@ fn real_read(r: R, path: &Path, key: &str, stored: &[u8], headers: bool, per: us
         }
         e2s(std::fs::write(path, stored))?;
     }
+    // the helper readers take a glob PATTERN: the pattern that matches exactly this file
+    let pattern = || -> Result<String, String> {
+        path.to_str().map(glob_escape).ok_or_else(|| "helper readers need a UTF-8 path".to_string())
+    };
     match r {
         R::Raw => {
             let f = e2s(std::fs::File::open(path))?;
@@ -327,7 +537,7 @@ fn real_read(r: R, path: &Path, key: &str, stored: &[u8], headers: bool, per: us
         R::JsonlVec => Ok(Out::Recs(e2s(read_jsonl_vec::<Row>(path))?)),
         R::JsonlHelper => {
             let p = Pipeline::default();
-            Ok(Out::Recs(e2s(e2s(read_jsonl::<Row>(&p, path))?.collect_seq())?))
+            Ok(Out::Recs(e2s(e2s(read_jsonl::<Row>(&p, pattern()?))?.collect_seq())?))
         }
         R::JsonlStreaming => {
             let p = Pipeline::default();
@@ -337,7 +547,7 @@ fn real_read(r: R, path: &Path, key: &str, stored: &[u8], headers: bool, per: us
         R::CsvVec => Ok(Out::Recs(e2s(read_csv_vec::<Row>(path, headers))?)),
         R::CsvHelper => {
             let p = Pipeline::default();
-            Ok(Out::Recs(e2s(e2s(read_csv::<Row>(&p, path, headers))?.collect_seq())?))
+            Ok(Out::Recs(e2s(e2s(read_csv::<Row>(&p, pattern()?, headers))?.collect_seq())?))
         }
         R::CsvStreaming => {
             let p = Pipeline::default();
@@ -363,23 +573,34 @@ fn hx(b: &[u8]) -> String {
     if b.is_empty() { "-".into() } else { hex(b) }
 }
 
+/// a codec's cases are skipped (with a note) when this environment cannot run the codec's own library
+fn xz_skipped(name: &[u8], codec: Option<&str>) -> bool {
+    spec_ext_bytes(name).is_some_and(|c| !codec_ok(c)) || codec.is_some_and(|c| !codec_ok(c))
+}
+
 // ---------------------------------------------------------------------------------------------
 // the request kinds
 // ---------------------------------------------------------------------------------------------
 
-fn one_codecs(cx: &mut Ctx) {
+fn codecs_line() -> String {
     let t = verif_codec_table();
     let s: Vec<String> = t
         .iter()
         .map(|(n, e, m)| format!("{}:{}:{}", n, e.join(","), m.as_ref().map_or("none".into(), |m| hx(m))))
         .collect();
-    let i = cx.case("CODECS".into(), s.join(";"), true);
-    // oracle: the registry's magic bytes are the true signatures, pairwise prefix-free
-    for (n, _, m) in &t {
-        let want = SPEC.iter().find(|x| x.0 == n).map(|x| x.2.to_vec());
-        if want.is_some() && *m != want {
-            cx.oracle_fail(i, "registry-magic-not-format-signature", format!("{n}: magic {:?} but the format signature is {:?}", m, want));
-        }
+    s.join(";")
+}
+
+fn one_codecs(cx: &mut Ctx) {
+    let t = verif_codec_table();
+    let i = emit(cx, "CODECS".into(), codecs_line(), true);
+    // oracle: the registry lists the built-in codecs FIRST, in the documented order, with the true signatures,
+    // followed by the registered user codecs in registration order
+    let want: Vec<(String, Option<Vec<u8>>)> = all_codecs().iter().map(|(n, _, s)| (n.to_string(), s.map(<[u8]>::to_vec))).collect();
+    let got: Vec<(String, Option<Vec<u8>>)> = t.iter().map(|(n, _, m)| (n.clone(), m.clone())).collect();
+    if got != want {
+        let sig = if got.len() == want.len() && got.iter().zip(&want).all(|(a, b)| a.0 == b.0) { "registry-magic-not-format-signature" } else { "registry-content-or-order-wrong" };
+        cx.oracle_fail(i, sig, format!("registry (name, magic) rows {got:?}, expected {want:?}"));
     }
 }
 
@@ -400,56 +621,62 @@ fn ascii_shape(cs: impl Iterator<Item = char>) -> String {
 }
 fn one_lower(cx: &mut Ctx, s: &str) {
     let real = ascii_shape(s.to_lowercase().chars());
-    cx.case(format!("LOWER {}", hx(s.as_bytes())), hx(real.as_bytes()), false);
+    emit(cx, format!("LOWER {}", hx(s.as_bytes())), hx(real.as_bytes()), false);
     cx.count("lower");
 }
 
-/// outcome of pushing `content` through a reader
-fn observe_reader(path: &str, content: &[u8]) -> String {
-    let got: Result<Vec<u8>, String> = match guarded(|| {
-        match auto_detect_reader(Cursor::new(content.to_vec()), path) {
-            Ok(r) => drain(r),
-            Err(e) => Err(format!("{e:#}")),
-        }
-    }) {
-        Ok(x) => x,
-        Err(_) => return "PANIC".into(),
-    };
-    let mut cands: Vec<&str> = vec![];
-    if got.as_deref() == Ok(content) { cands.push("plain"); }
-    for (n, _, _) in SPEC {
-        if dec(n, content) == got { cands.push(n); }
-    }
-    match cands.len() {
-        1 => cands[0].to_string(),
-        0 => "UNKNOWN".into(),
-        _ => format!("AMBIG({})", cands.join("|")),
-    }
-}
-/// A `Read` that honours a read schedule: the i-th call returns at most `sched[i]` bytes (>= 1),
-/// calls beyond the schedule fill the caller's buffer. Models pipes / sockets / chained readers.
+/// A `Read` that honours a read schedule and raises I/O faults: the i-th SUCCESSFUL call returns at most
+/// `sched[i]` bytes (>= 1), successful calls beyond the schedule fill the caller's buffer; in front of the byte at
+/// offset `o` the pending faults `(o, is_error)` are raised, one per call (`Interrupted`, or a transient
+/// `ErrorKind::Other` that is delivered once); a read never crosses a pending fault; at the end of the data every
+/// call returns `Ok(0)`. Models pipes / sockets / chained readers.
 struct ChunkedRead {
     data: Vec<u8>,
     pos: usize,
     sched: Vec<usize>,
-    call: usize,
+    k: usize,
+    faults: VecDeque<(usize, bool)>,
+    err_seen: Arc<AtomicBool>,
 }
 impl Read for ChunkedRead {
     fn read(&mut self, buf: &mut [u8]) -> std::io::Result<usize> {
-        let limit = self.sched.get(self.call).copied().unwrap_or(usize::MAX).max(1);
-        self.call += 1;
-        let n = buf.len().min(limit).min(self.data.len() - self.pos);
+        if self.pos >= self.data.len() {
+            return Ok(0);
+        }
+        if let Some(&(off, is_err)) = self.faults.front() {
+            if off <= self.pos {
+                self.faults.pop_front();
+                return if is_err {
+                    self.err_seen.store(true, Ordering::SeqCst);
+                    Err(std::io::Error::new(std::io::ErrorKind::Other, "injected transient source error"))
+                } else {
+                    Err(std::io::Error::new(std::io::ErrorKind::Interrupted, "injected EINTR"))
+                };
+            }
+        }
+        let limit = self.sched.get(self.k).copied().unwrap_or(usize::MAX).max(1);
+        let until_fault = self.faults.front().map_or(usize::MAX, |f| f.0 - self.pos);
+        let n = buf.len().min(limit).min(self.data.len() - self.pos).min(until_fault);
+        self.k += 1;
         buf[..n].copy_from_slice(&self.data[self.pos..self.pos + n]);
         self.pos += n;
         Ok(n)
     }
 }
 
-/// decision of `auto_detect_reader` on a source with the given read schedule
-fn observe_reader_sched(path: &str, content: &[u8], sched: &[usize]) -> String {
+/// decision of `auto_detect_reader` on `content` delivered by a source with the given read schedule and faults
+/// (`sched = faults = []`: a `Cursor`); `ERR` = an injected source ERROR reached the caller
+fn observe_reader_src(path: &Path, content: &[u8], sched: &[usize], faults: &[(usize, bool)], want: &str) -> String {
+    let seen = Arc::new(AtomicBool::new(false));
+    let seen2 = seen.clone();
     let got: Result<Vec<u8>, String> = match guarded(|| {
-        let src = ChunkedRead { data: content.to_vec(), pos: 0, sched: sched.to_vec(), call: 0 };
-        match auto_detect_reader(src, path) {
+        let r = if sched.is_empty() && faults.is_empty() {
+            auto_detect_reader(Cursor::new(content.to_vec()), path)
+        } else {
+            let src = ChunkedRead { data: content.to_vec(), pos: 0, sched: sched.to_vec(), k: 0, faults: faults.iter().copied().collect(), err_seen: seen2 };
+            auto_detect_reader(src, path)
+        };
+        match r {
             Ok(r) => drain(r),
             Err(e) => Err(format!("{e:#}")),
         }
@@ -457,39 +684,53 @@ fn observe_reader_sched(path: &str, content: &[u8], sched: &[usize]) -> String {
         Ok(x) => x,
         Err(_) => return "PANIC".into(),
     };
-    let mut cands: Vec<&str> = vec![];
-    if got.as_deref() == Ok(content) { cands.push("plain"); }
-    for (n, _, _) in SPEC {
-        if dec(n, content) == got { cands.push(n); }
+    if got.is_err() && seen.load(Ordering::SeqCst) {
+        return "ERR".into();
     }
-    match cands.len() {
-        1 => cands[0].to_string(),
-        0 => "UNKNOWN".into(),
-        _ => format!("AMBIG({})", cands.join("|")),
+    if got.as_ref().is_err_and(|e| e.contains("injected EINTR")) {
+        return "ERR(interrupted-read-not-retried)".into();
     }
+    classify_read(&got, content, want)
 }
 
 fn sched_tok(sched: &[usize]) -> String {
     if sched.is_empty() { "-".into() } else { sched.iter().map(|k| k.to_string()).collect::<Vec<_>>().join(",") }
 }
-
-/// DETECTS: the reader's decision must not depend on how the source chunks its reads
-fn one_detect_sched(cx: &mut Ctx, path: &str, content: &[u8], sched: &[usize]) {
-    let r = observe_reader_sched(path, content, sched);
-    let ext = spec_ext(path);
-    let sig = spec_sig(content);
-    let i = cx.case(format!("DETECTS {} {} {}", sched_tok(sched), hx(path.as_bytes()), hx(content)), format!("R={r}"), ext.is_some() || sig.is_some());
-    cx.count(&format!("detects:R={}", if r.starts_with("AMBIG") { "AMBIG" } else { &r }));
-    cx.count(&format!("detects:first-read={}", match sched.first() { None => "full".to_string(), Some(k) if *k >= 6 => ">=6".to_string(), Some(k) => k.to_string() }));
-    let want_r = ext.or(sig).unwrap_or("plain");
-    if r != want_r {
-        let sig_name = if ext.is_none() && sig.is_none() { "neutral-plain-content-detected-as-compressed" }
-            else if ext.is_none() { "neutral-signature-not-recognised-short-first-read" } else { "extension-reader-decision-wrong" };
-        cx.oracle_fail(i, sig_name, format!("path {path:?} content {} read schedule [{}]: reader decision {r}, specification says {want_r}", hx(&content[..content.len().min(12)]), sched_tok(sched)));
-    }
+fn faults_tok(f: &[(usize, bool)]) -> String {
+    if f.is_empty() { "-".into() } else { f.iter().map(|(o, e)| format!("{o}{}", if *e { 'e' } else { 'i' })).collect::<Vec<_>>().join(",") }
 }
 
-fn observe_writer(path: &str, probe: &[u8]) -> String {
+/// DETECTS: the reader's decision must not depend on how the source chunks its reads, nor on `Interrupted`
+/// faults; another source error while the signature is collected must be REPORTED (never a silent pass-through)
+fn one_detect_sched(cx: &mut Ctx, path: &str, content: &[u8], sched: &[usize], faults: &[(usize, bool)]) {
+    if xz_skipped(path.as_bytes(), spec_sig(content)) { cx.count("skipped:codec-unavailable"); return; }
+    let ext = spec_ext(path);
+    let sig = spec_sig(content);
+    let want_r = ext.or(sig).unwrap_or("plain");
+    // an error fault is live while the head is collected: in front of one of the first 6 bytes, with data behind it
+    let live_err = ext.is_none() && faults.iter().any(|(o, e)| *e && *o < 6 && *o < content.len());
+    let judge = |r: &str| -> Option<(&'static str, String)> {
+        let ok = if live_err { r == "ERR" || r == want_r } else { r == want_r };
+        if ok { return None; }
+        let sig_name = if ext.is_none() && sig.is_none() { "neutral-plain-content-detected-as-compressed" }
+            else if ext.is_none() && faults.iter().any(|f| f.1) { "neutral-signature-not-recognised-after-source-error" }
+            else if ext.is_none() && !faults.is_empty() { "neutral-signature-not-recognised-after-interrupted-read" }
+            else if ext.is_none() { "neutral-signature-not-recognised-short-first-read" } else { "extension-reader-decision-wrong" };
+        Some((sig_name, format!("path {path:?} content {} read schedule [{}] faults [{}]: reader decision {r}, specification says {want_r}{}", hx(&content[..content.len().min(12)]), sched_tok(sched), faults_tok(faults), if live_err { " or a reported error" } else { "" })))
+    };
+    let mut r = observe_reader_src(Path::new(path), content, sched, faults, want_r);
+    if judge(&r).is_some() {
+        let r2 = observe_reader_src(Path::new(path), content, sched, faults, want_r);
+        if judge(&r2).is_none() { cx.count("unconfirmed-failure(not repeated on re-execution)"); r = r2; }
+    }
+    let i = emit(cx, format!("DETECTS {} {} {} {}", sched_tok(sched), faults_tok(faults), hx(path.as_bytes()), hx(content)), format!("R={r}"), ext.is_some() || sig.is_some());
+    cx.count(&format!("detects:R={}", if r.starts_with("AMBIG") { "AMBIG" } else { &r }));
+    cx.count(&format!("detects:first-read={}", match sched.first() { None => "full".to_string(), Some(k) if *k >= 6 => ">=6".to_string(), Some(k) => k.to_string() }));
+    if !faults.is_empty() { cx.count(&format!("detects:faults={}", if faults.iter().any(|f| f.1) { "error" } else { "interrupted-only" })); }
+    if let Some((s, d)) = judge(&r) { cx.oracle_fail(i, s, d); }
+}
+
+fn observe_writer(path: &Path, probe: &[u8]) -> String {
     let r = guarded(|| -> Result<Vec<u8>, String> {
         let buf = Shared(Arc::new(Mutex::new(Vec::new())));
         let mut w = e2s(auto_detect_writer(buf.clone(), path))?;
@@ -506,134 +747,210 @@ fn observe_writer(path: &str, probe: &[u8]) -> String {
     }
 }
 
-fn one_detect(cx: &mut Ctx, path: &str, content: &[u8]) {
-    let r = observe_reader(path, content);
-    let w = observe_writer(path, b"probe-payload 0123456789\n");
-    let ext = spec_ext(path);
+/// DETECT (and ODETECT for a name that is not valid UTF-8: `raw` = the name's bytes)
+fn one_detect_raw(cx: &mut Ctx, raw: &[u8], content: &[u8]) {
+    if xz_skipped(raw, spec_sig(content)) { cx.count("skipped:codec-unavailable"); return; }
+    let os = std::ffi::OsStr::from_bytes(raw);
+    let path = Path::new(os);
+    let lossy = os.to_string_lossy().to_string();
+    let utf8 = std::str::from_utf8(raw).is_ok();
+    let ext = spec_ext_bytes(raw);
     let sig = spec_sig(content);
-    let nt = ext.is_some() || sig.is_some() || SPEC.iter().any(|(_, _, s)| !content.is_empty() && (s.starts_with(content) || content.starts_with(&s[..1])));
-    let i = cx.case(format!("DETECT {} {}", hx(path.as_bytes()), hx(content)), format!("R={r} W={w}"), nt);
-    cx.count(&format!("detect:R={}", if r.starts_with("AMBIG") { "AMBIG" } else { &r }));
     let want_r = ext.or(sig).unwrap_or("plain");
     let want_w = ext.unwrap_or("plain");
+    let probe = b"probe-payload 0123456789\n";
+    let mut r = observe_reader_src(path, content, &[], &[], want_r);
+    let mut w = observe_writer(path, probe);
+    if r != want_r || w != want_w {
+        let (r2, w2) = (observe_reader_src(path, content, &[], &[], want_r), observe_writer(path, probe));
+        if r2 == want_r && w2 == want_w { cx.count("unconfirmed-failure(not repeated on re-execution)"); r = r2; w = w2; }
+    }
+    let nt = ext.is_some() || sig.is_some() || SPEC.iter().any(|(_, _, s)| !content.is_empty() && (s.starts_with(content) || content.starts_with(&s[..1])));
+    let req = if utf8 { format!("DETECT {} {}", hx(raw), hx(content)) } else { format!("ODETECT {} {} {}", hx(raw), hx(lossy.as_bytes()), hx(content)) };
+    let i = emit(cx, req, format!("R={r} W={w}"), nt);
+    cx.count(&format!("detect:R={}", if r.starts_with("AMBIG") { "AMBIG" } else { &r }));
+    if !utf8 { cx.count("detect:name-not-utf8"); }
     if r != want_r {
         let sig_name = if ext.is_none() && sig.is_none() { "neutral-plain-content-detected-as-compressed" }
             else if ext.is_none() { "neutral-signature-not-recognised" } else { "extension-reader-decision-wrong" };
-        cx.oracle_fail(i, sig_name, format!("path {path:?} content {}: reader decision {r}, specification says {want_r}", hx(&content[..content.len().min(12)])));
+        cx.oracle_fail(i, sig_name, format!("path {lossy:?} content {}: reader decision {r}, specification says {want_r}", hx(&content[..content.len().min(12)])));
     }
     if w != want_w {
-        cx.oracle_fail(i, "extension-writer-decision-wrong", format!("path {path:?}: writer decision {w}, specification says {want_w}"));
+        cx.oracle_fail(i, "extension-writer-decision-wrong", format!("path {lossy:?}: writer decision {w}, specification says {want_w}"));
     }
 }
+fn one_detect(cx: &mut Ctx, path: &str, content: &[u8]) { one_detect_raw(cx, path.as_bytes(), content); }
 
-struct RtOpts { shards: usize, per: usize, par: bool }
+#[derive(Clone, Copy)]
+struct RtOpts { shards: Option<usize>, per: usize, par: bool }
 fn opts_tok(o: &RtOpts, headers: bool) -> String {
-    format!("sh={},per={},par={},hdr={}", o.shards, o.per, u8::from(o.par), u8::from(headers))
+    format!("sh={},per={},par={},hdr={}", o.shards.map_or("none".to_string(), |k| k.to_string()), o.per, u8::from(o.par), u8::from(headers))
 }
 
-fn one_rt(cx: &mut Ctx, env: &mut Env, w: W, r: R, rel: &str, pl: &Payload, o: &RtOpts) {
-    let path = env.fresh(rel);
+struct RtOut { wc: String, rc: String, detail: String, reader_panicked: bool }
+
+/// write through `w`, read back through `r` (pure: usable from several threads at once)
+fn exec_rt(w: W, r: R, path: &Path, key: &str, pl: &Payload, o: &RtOpts) -> RtOut {
     // writer and reader are guarded separately: a panic while READING is a failed read, not a lost write
-    let wres = guarded(|| real_write(w, &path, rel, pl, o.shards));
-    let (wc, rc, detail) = match wres {
-        Err(m) => ("PANIC".to_string(), "FAIL".to_string(), format!("writer panicked: {m}")),
-        Ok(Err(e)) => ("ERR".to_string(), "FAIL".to_string(), format!("write error: {e}")),
+    let wres = guarded(|| real_write(w, path, key, pl, o.shards));
+    match wres {
+        Err(m) => RtOut { wc: "PANIC".into(), rc: "FAIL".into(), detail: format!("writer panicked: {m}"), reader_panicked: false },
+        Ok(Err(e)) => RtOut { wc: "ERR".into(), rc: "FAIL".into(), detail: format!("write error: {e}"), reader_panicked: false },
         Ok(Ok(stored)) => {
             let wc = classify_stored(&stored, &pl.plain);
             // read back what the writer stored, through reader `r` (same path / key)
-            let (rc, detail) = match guarded(|| real_read(r, &path, rel, &stored, pl.headers, o.per, o.par)) {
-                Ok(Ok(out)) => if same_as(&out, pl) { ("SAME".to_string(), String::new()) } else { ("FAIL".to_string(), "read back different data".to_string()) },
-                Ok(Err(e)) => ("FAIL".to_string(), format!("read error: {e}")),
-                Err(m) => { cx.count("rt:reader-panicked"); ("FAIL".to_string(), format!("reader panicked: {m}")) }
+            let (rc, detail, rp) = match guarded(|| real_read(r, path, key, &stored, pl.headers, o.per, o.par)) {
+                Ok(Ok(out)) => if same_as(&out, pl) { ("SAME".to_string(), String::new(), false) } else { ("FAIL".to_string(), "read back different data".to_string(), false) },
+                Ok(Err(e)) => ("FAIL".to_string(), format!("read error: {e}"), false),
+                Err(m) => ("FAIL".to_string(), format!("reader panicked: {m}"), true),
             };
-            (wc, rc, detail)
+            RtOut { wc, rc, detail, reader_panicked: rp }
         }
-    };
-    env.cleanup();
-    let ext = spec_ext(rel);
+    }
+}
+
+/// the property's statement on one written-and-read-back case: the oracle failures (signature, detail)
+fn judge_rt(w: W, r: R, name: &[u8], shown: &str, pl: &Payload, out: &RtOut) -> Vec<(String, String)> {
+    let ext = spec_ext_bytes(name);
     let sig = spec_sig(&pl.plain);
-    let nt = ext.is_some() || sig.is_some();
-    let i = cx.case(
-        format!("RT {} {} {} {} {}", w.tok(), r.tok(), hx(rel.as_bytes()), hx(&pl.plain), opts_tok(o, pl.headers)),
-        format!("W={wc} R={rc}"),
-        nt,
-    );
-    cx.count(&format!("rt:w={}", w.tok()));
-    cx.count(&format!("rt:r={}", r.tok()));
-    cx.count(&format!("rt:stored={wc}"));
-    cx.count(if ext.is_some() { "rt:path=codec-ext" } else if sig.is_some() { "rt:path=neutral,content=signature" } else { "rt:path=neutral" });
+    let mut v = vec![];
     match ext {
         Some(c) => {
-            if wc != c {
-                cx.oracle_fail(i, &format!("codec-extension-not-stored-compressed:{}", w.tok()),
-                    format!("{} to {rel:?}: stored as {wc}, expected a genuine {c} stream starting with its signature ({detail})", w.tok()));
+            if out.wc != c {
+                v.push((format!("codec-extension-not-stored-compressed:{}", w.tok()),
+                    format!("{} to {shown:?}: stored as {}, expected a genuine {c} stream starting with its signature ({})", w.tok(), out.wc, out.detail)));
             }
-            if rc != "SAME" {
-                cx.oracle_fail(i, &format!("codec-extension-roundtrip-fails:{}", w.tok()),
-                    format!("{} to {rel:?} then {}: {detail}", w.tok(), r.tok()));
+            if out.rc != "SAME" {
+                v.push((format!("codec-extension-roundtrip-fails:{}", w.tok()), format!("{} to {shown:?} then {}: {}", w.tok(), r.tok(), out.detail)));
             }
         }
         None => {
             if sig.is_none() {
-                if wc != "plain" {
-                    cx.oracle_fail(i, "neutral-name-not-stored-verbatim", format!("{} to {rel:?}: stored as {wc}", w.tok()));
+                if out.wc != "plain" {
+                    v.push(("neutral-name-not-stored-verbatim".to_string(), format!("{} to {shown:?}: stored as {}", w.tok(), out.wc)));
                 }
-                if rc != "SAME" {
-                    cx.oracle_fail(i, "neutral-plain-content-not-read-verbatim", format!("{} to {rel:?} then {}: {detail}", w.tok(), r.tok()));
+                if out.rc != "SAME" {
+                    v.push(("neutral-plain-content-not-read-verbatim".to_string(), format!("{} to {shown:?} then {}: {}", w.tok(), r.tok(), out.detail)));
                 }
             }
         }
     }
+    v
+}
+
+fn emit_rt(cx: &mut Ctx, w: W, r: R, name: &[u8], pl: &Payload, o: &RtOpts, out: &RtOut, fails: Vec<(String, String)>) {
+    let utf8 = std::str::from_utf8(name).ok();
+    let lossy = String::from_utf8_lossy(name).to_string();
+    let ext = spec_ext_bytes(name);
+    let sig = spec_sig(&pl.plain);
+    let req = match utf8 {
+        Some(_) => format!("RT {} {} {} {} {}", w.tok(), r.tok(), hx(name), hx(&pl.plain), opts_tok(o, pl.headers)),
+        None => format!("ORT {} {} {} {} {} {}", hx(name), w.tok(), r.tok(), hx(lossy.as_bytes()), hx(&pl.plain), opts_tok(o, pl.headers)),
+    };
+    let i = emit(cx, req, format!("W={} R={}", out.wc, out.rc), ext.is_some() || sig.is_some());
+    cx.count(&format!("rt:w={}", w.tok()));
+    cx.count(&format!("rt:r={}", r.tok()));
+    cx.count(&format!("rt:stored={}", out.wc));
+    cx.count(&format!("rt:sh={}", match o.shards { None => "none".to_string(), Some(k) if k > 3 => ">3".to_string(), Some(k) => k.to_string() }));
+    cx.count(if ext.is_some() { "rt:path=codec-ext" } else if sig.is_some() { "rt:path=neutral,content=signature" } else { "rt:path=neutral" });
+    if utf8.is_none() { cx.count("rt:name-not-utf8"); }
+    if name.iter().any(|b| b"*?[]".contains(b)) { cx.count("rt:name-has-glob-metachar"); }
+    if out.reader_panicked { cx.count("rt:reader-panicked"); }
+    for (s, d) in fails { cx.oracle_fail(i, &s, d); }
+}
+
+/// RT (ORT when `name` is not valid UTF-8); an oracle failure is confirmed by re-execution
+fn one_rt_raw(cx: &mut Ctx, env: &mut Env, w: W, r: R, name: &[u8], pl: &Payload, o: &RtOpts) {
+    if xz_skipped(name, None) { cx.count("skipped:codec-unavailable"); return; }
+    let rel = Path::new(std::ffi::OsStr::from_bytes(name));
+    let key = String::from_utf8_lossy(name).to_string();
+    let run = |env: &mut Env| -> RtOut {
+        let path = env.fresh(rel);
+        let out = exec_rt(w, r, &path, &key, pl, o);
+        env.cleanup();
+        out
+    };
+    let mut out = run(env);
+    let mut fails = judge_rt(w, r, name, &key, pl, &out);
+    if !fails.is_empty() {
+        let out2 = run(env);
+        let fails2 = judge_rt(w, r, name, &key, pl, &out2);
+        if fails2.is_empty() { cx.count("unconfirmed-failure(not repeated on re-execution)"); out = out2; fails = fails2; }
+    }
+    emit_rt(cx, w, r, name, pl, o, &out, fails);
+}
+fn one_rt(cx: &mut Ctx, env: &mut Env, w: W, r: R, rel: &str, pl: &Payload, o: &RtOpts) {
+    one_rt_raw(cx, env, w, r, rel.as_bytes(), pl, o);
 }
 
 /// `file` is either a genuine stream (`codec` = Some) of `pl.plain`, or `pl.plain` itself
 fn one_rd(cx: &mut Ctx, env: &mut Env, r: R, rel: &str, codec: Option<&'static str>, pl: &Payload, o: &RtOpts) {
-    let file = match codec { Some(c) => enc(c, &pl.plain), None => pl.plain.clone() };
+    if xz_skipped(rel.as_bytes(), codec) { cx.count("skipped:codec-unavailable"); return; }
+    let file = match codec {
+        Some(c) => match try_enc(c, &pl.plain) { Some(z) => z, None => { cx.count("skipped:codec-unavailable"); return; } },
+        None => pl.plain.clone(),
+    };
     // the assumed codec laws (hypothesis `Lawful` of the theorems), validated on the real libraries
     let law_broken = match codec {
         Some(c) => {
-            let sig = SPEC.iter().find(|x| x.0 == c).unwrap().2;
+            let sig = all_codecs().iter().find(|x| x.0 == c).unwrap().2.unwrap_or(&[]);
             !(file.starts_with(sig) && dec(c, &file).as_deref() == Ok(&pl.plain[..]))
         }
         None => false,
     };
-    let path = env.fresh(rel);
-    let res = guarded(|| real_read(r, &path, rel, &file, pl.headers, o.per, o.par));
-    env.cleanup();
-    let (ans, detail) = match res {
-        Ok(Ok(out)) => {
-            if same_as(&out, pl) { (if codec.is_some() { "DECODED" } else { "VERBATIM" }, String::new()) }
-            else if matches!(&out, Out::Bytes(b) if *b == file) { ("VERBATIM", String::new()) }
-            else { ("FAIL", "different data".to_string()) }
-        }
-        Ok(Err(e)) => ("FAIL", e),
-        Err(m) => { cx.count("rd:reader-panicked"); ("FAIL", format!("panic: {m}")) }
-    };
     let ext = spec_ext(rel);
     let sig = spec_sig(&file);
+    let run = |env: &mut Env| -> (&'static str, String, bool) {
+        let path = env.fresh(Path::new(rel));
+        let res = guarded(|| real_read(r, &path, rel, &file, pl.headers, o.per, o.par));
+        env.cleanup();
+        match res {
+            Ok(Ok(out)) => {
+                if same_as(&out, pl) { (if codec.is_some() { "DECODED" } else { "VERBATIM" }, String::new(), false) }
+                else if matches!(&out, Out::Bytes(b) if *b == file) { ("VERBATIM", String::new(), false) }
+                else if matches!(&out, Out::Recs(v) if v.is_empty()) { ("FAIL", "different data (an EMPTY data set and no error)".to_string(), false) }
+                else { ("FAIL", "different data".to_string(), false) }
+            }
+            Ok(Err(e)) => ("FAIL", e, false),
+            Err(m) => ("FAIL", format!("panic: {m}"), true),
+        }
+    };
+    let judge = |ans: &str, detail: &str| -> Option<(&'static str, String)> {
+        match (codec, ext) {
+            // (a codec that declares no magic bytes cannot be recognised by content: no expectation)
+            (Some(c), None) => if ans != "DECODED" && all_codecs().iter().any(|x| x.0 == c && x.2.is_some()) {
+                return Some(("neutral-signature-not-recognised", format!("genuine {c} stream under neutral name {rel:?} read through {}: {ans} {detail}", r.tok())));
+            },
+            (Some(c), Some(e)) if c == e => if ans != "DECODED" {
+                return Some(("codec-extension-read-fails", format!("genuine {c} stream under {rel:?} read through {}: {ans} {detail}", r.tok())));
+            },
+            (None, None) => if sig.is_none() && ans != "VERBATIM" {
+                return Some(("neutral-plain-content-not-read-verbatim", format!("plain content {} under neutral name {rel:?} read through {}: {ans} {detail}", hx(&file[..file.len().min(12)]), r.tok())));
+            },
+            _ => {}
+        }
+        None
+    };
+    let (mut ans, mut detail, mut panicked) = run(env);
+    if judge(ans, &detail).is_some() {
+        let (a2, d2, p2) = run(env);
+        if judge(a2, &d2).is_none() { cx.count("unconfirmed-failure(not repeated on re-execution)"); ans = a2; detail = d2; panicked = p2; }
+    }
     let req = match codec {
         Some(c) => format!("RD {} {} C {} {} {}", r.tok(), hx(rel.as_bytes()), c, hx(&pl.plain), opts_tok(o, pl.headers)),
         None => format!("RD {} {} P {} {}", r.tok(), hx(rel.as_bytes()), hx(&pl.plain), opts_tok(o, pl.headers)),
     };
-    let i = cx.case(req, ans.to_string(), true);
+    let i = emit(cx, req, ans.to_string(), true);
     cx.count(&format!("rd:r={}", r.tok()));
     cx.count(&format!("rd:{}:{}", if codec.is_some() { "genuine" } else { "raw" }, ans));
+    if matches!(r, R::CsvVec | R::CsvHelper | R::CsvStreaming) { cx.count(&format!("rd:csv:hdr={}", u8::from(pl.headers))); }
+    if panicked { cx.count("rd:reader-panicked"); }
+    if detail.contains("an EMPTY data set and no error") { cx.count("rd:undecodable-file-read-as-empty-data-set-without-error(csv has_headers=true)"); }
     if codec.is_some() { cx.count("codec-law-validated(roundtrip+signature)"); }
     if law_broken {
         cx.oracle_fail(i, "codec-library-law-violated", format!("{codec:?}: compress output does not start with the format signature or does not decompress to the input"));
     }
-    match (codec, ext) {
-        (Some(c), None) => if ans != "DECODED" {
-            cx.oracle_fail(i, "neutral-signature-not-recognised", format!("genuine {c} stream under neutral name {rel:?} read through {}: {ans} {detail}", r.tok()));
-        },
-        (Some(c), Some(e)) if c == e => if ans != "DECODED" {
-            cx.oracle_fail(i, "codec-extension-read-fails", format!("genuine {c} stream under {rel:?} read through {}: {ans} {detail}", r.tok()));
-        },
-        (None, None) => if sig.is_none() && ans != "VERBATIM" {
-            cx.oracle_fail(i, "neutral-plain-content-not-read-verbatim", format!("plain content {} under neutral name {rel:?} read through {}: {ans} {detail}", hx(&file[..file.len().min(12)]), r.tok()));
-        },
-        _ => {}
-    }
+    if let Some((s, d)) = judge(ans, &detail) { cx.oracle_fail(i, s, d); }
 }
 
 #[derive(Clone, Copy, PartialEq, Eq)]
@@ -642,80 +959,107 @@ impl G {
     fn tok(self) -> &'static str { match self { G::LocalJsonl => "local_jsonl", G::LocalCsv => "local_csv", G::CloudJsonl => "cloud_jsonl" } }
 }
 
+/// false on a file system that folds case (two names differing only in case would be ONE file)
+static FS_CASE_SENSITIVE: AtomicBool = AtomicBool::new(true);
+
 /// CGLOB: files (name, writer, payload) are written into one directory / key prefix, each through its own
 /// writer entry point under its own name (mixed codecs, case variants, neutral names side by side), then all
 /// are read back through ONE glob call: `read_jsonl(dir/*)`, `read_csv(dir/*)`, `read_cloud_jsonl_glob(g/*)`.
 /// Oracle: the result is the concatenation of all files' records in byte order of the names.
 fn one_glob(cx: &mut Ctx, env: &mut Env, g: G, files: &[(String, W, Payload)], o: &RtOpts) {
     let mut files: Vec<(String, W, Payload)> = files.to_vec();
+    files.retain(|f| !xz_skipped(f.0.as_bytes(), None));
     files.sort_by(|a, b| a.0.as_bytes().cmp(b.0.as_bytes()));
     files.dedup_by(|a, b| a.0 == b.0);
+    if !FS_CASE_SENSITIVE.load(Ordering::SeqCst) && g != G::CloudJsonl {
+        let mut seen = std::collections::BTreeSet::new();
+        files.retain(|f| seen.insert(f.0.to_lowercase()));
+    }
     let headers = files.iter().any(|f| f.2.headers);
-    let dir = env.fresh("g");
-    let store = FakeObjectIO::new();
-    let mut wcs: Vec<String> = vec![];
-    let mut detail = String::new();
-    for (name, w, pl) in &files {
-        let rel = format!("g/{name}");
-        let path = dir.join(name);
-        let res = guarded(|| -> Result<Vec<u8>, String> {
-            if g == G::CloudJsonl {
-                let recs: &[Row] = pl.recs.as_deref().unwrap_or(&[]);
-                e2s(write_cloud_jsonl_vec(&store, "b", &rel, recs))?;
-                e2s(store.get_object("b", &rel))
-            } else {
-                real_write(*w, &path, &rel, pl, o.shards)
+    struct GOut { wcs: Vec<String>, rc: &'static str, detail: String }
+    let run = |env: &mut Env| -> GOut {
+        let dir = env.fresh(Path::new("g"));
+        let store = FakeObjectIO::new();
+        let mut wcs: Vec<String> = vec![];
+        let mut detail = String::new();
+        for (name, w, pl) in &files {
+            let rel = format!("g/{name}");
+            let path = dir.join(name);
+            let res = guarded(|| -> Result<Vec<u8>, String> {
+                if g == G::CloudJsonl {
+                    let recs: &[Row] = pl.recs.as_deref().unwrap_or(&[]);
+                    e2s(write_cloud_jsonl_vec(&store, "b", &rel, recs))?;
+                    e2s(store.get_object("b", &rel))
+                } else {
+                    real_write(*w, &path, &rel, pl, o.shards)
+                }
+            });
+            match res {
+                Ok(Ok(stored)) => wcs.push(classify_stored(&stored, &pl.plain)),
+                Ok(Err(e)) => { wcs.push("ERR".into()); detail = format!("write error: {e}"); }
+                Err(m) => { wcs.push("PANIC".into()); detail = format!("writer panicked: {m}"); }
+            }
+        }
+        let want: Vec<Row> = files.iter().flat_map(|f| f.2.recs.clone().unwrap_or_default()).collect();
+        // the pattern: the directory itself escaped (its name may contain glob characters), then `/*`
+        let pat = format!("{}/*", glob_escape(&dir.to_string_lossy()));
+        let got = guarded(|| -> Result<Vec<Row>, String> {
+            match g {
+                G::LocalJsonl => {
+                    let p = Pipeline::default();
+                    e2s(e2s(read_jsonl::<Row>(&p, &pat))?.collect_seq())
+                }
+                G::LocalCsv => {
+                    let p = Pipeline::default();
+                    e2s(e2s(read_csv::<Row>(&p, &pat, headers))?.collect_seq())
+                }
+                G::CloudJsonl => e2s(read_cloud_jsonl_glob::<Row, _>(&store, "b", "g/*")),
             }
         });
-        match res {
-            Ok(Ok(stored)) => wcs.push(classify_stored(&stored, &pl.plain)),
-            Ok(Err(e)) => { wcs.push("ERR".into()); detail = format!("write error: {e}"); }
-            Err(m) => { wcs.push("PANIC".into()); detail = format!("writer panicked: {m}"); }
-        }
-    }
-    let want: Vec<Row> = files.iter().flat_map(|f| f.2.recs.clone().unwrap_or_default()).collect();
-    let got = guarded(|| -> Result<Vec<Row>, String> {
-        match g {
-            G::LocalJsonl => {
-                let p = Pipeline::default();
-                e2s(e2s(read_jsonl::<Row>(&p, dir.join("*")))?.collect_seq())
-            }
-            G::LocalCsv => {
-                let p = Pipeline::default();
-                e2s(e2s(read_csv::<Row>(&p, dir.join("*"), headers))?.collect_seq())
-            }
-            G::CloudJsonl => e2s(read_cloud_jsonl_glob::<Row, _>(&store, "b", "g/*")),
-        }
-    });
-    env.cleanup();
-    let rc = match got {
-        Ok(Ok(v)) => if v == want { "SAME" } else { detail = format!("read back {} records, expected {}", v.len(), want.len()); "FAIL" },
-        Ok(Err(e)) => { detail = format!("read error: {e}"); "FAIL" }
-        Err(m) => { detail = format!("reader panicked: {m}"); "FAIL" }
+        env.cleanup();
+        let rc = match got {
+            Ok(Ok(v)) => if v == want { "SAME" } else { detail = format!("read back {} records, expected {}", v.len(), want.len()); "FAIL" },
+            Ok(Err(e)) => { detail = format!("read error: {e}"); "FAIL" }
+            Err(m) => { detail = format!("reader panicked: {m}"); "FAIL" }
+        };
+        GOut { wcs, rc, detail }
     };
+    let judge = |out: &GOut| -> Vec<(String, String)> {
+        let mut v = vec![];
+        let mut sound = true;
+        for ((name, w, pl), wc) in files.iter().zip(&out.wcs) {
+            let ext = spec_ext(name);
+            let sig = spec_sig(&pl.plain);
+            let wt = if g == G::CloudJsonl { W::CloudJsonl } else { *w };
+            match ext {
+                Some(c) => if wc != c {
+                    v.push((format!("codec-extension-not-stored-compressed:{}", wt.tok()), format!("glob member {name:?}: stored as {wc}, expected a genuine {c} stream ({})", out.detail)));
+                },
+                None => if sig.is_none() { if wc != "plain" { v.push(("neutral-name-not-stored-verbatim".to_string(), format!("glob member {name:?}: stored as {wc}"))); } } else { sound = false; },
+            }
+        }
+        if sound && out.rc != "SAME" {
+            v.push((format!("glob-read-of-compressed-files-fails:{}", g.tok()), format!("{} files {:?}: {}", files.len(), files.iter().map(|f| f.0.as_str()).collect::<Vec<_>>(), out.detail)));
+        }
+        v
+    };
+    let mut out = run(env);
+    let mut fails = judge(&out);
+    if !fails.is_empty() {
+        let out2 = run(env);
+        let f2 = judge(&out2);
+        if f2.is_empty() { cx.count("unconfirmed-failure(not repeated on re-execution)"); out = out2; fails = f2; }
+    }
     let mut req = format!("CGLOB {} {}", g.tok(), opts_tok(o, headers));
     for (name, w, pl) in &files {
         let wt = if g == G::CloudJsonl { W::CloudJsonl } else { *w };
         req.push_str(&format!(" {} {} {}", hx(format!("g/{name}").as_bytes()), wt.tok(), hx(&pl.plain)));
     }
-    let i = cx.case(req, format!("W={} R={rc}", wcs.join(",")), true);
+    let i = emit(cx, req, format!("W={} R={}", out.wcs.join(","), out.rc), true);
     cx.count(&format!("glob:{}", g.tok()));
     cx.count(&format!("glob:files={}", files.len()));
-    let mut sound = true;
-    for ((name, w, pl), wc) in files.iter().zip(&wcs) {
-        let ext = spec_ext(name);
-        let sig = spec_sig(&pl.plain);
-        cx.count(&format!("glob:file:{}", ext.unwrap_or("neutral")));
-        match ext {
-            Some(c) => if wc != c {
-                cx.oracle_fail(i, &format!("codec-extension-not-stored-compressed:{}", w.tok()), format!("glob member {name:?}: stored as {wc}, expected a genuine {c} stream ({detail})"));
-            },
-            None => if sig.is_none() { if wc != "plain" { cx.oracle_fail(i, "neutral-name-not-stored-verbatim", format!("glob member {name:?}: stored as {wc}")); } } else { sound = false; },
-        }
-    }
-    if sound && rc != "SAME" {
-        cx.oracle_fail(i, &format!("glob-read-of-compressed-files-fails:{}", g.tok()), format!("{} files {:?}: {detail}", files.len(), files.iter().map(|f| f.0.as_str()).collect::<Vec<_>>()));
-    }
+    for (name, _, _) in &files { cx.count(&format!("glob:file:{}", spec_ext(name).unwrap_or("neutral"))); }
+    for (s, d) in fails { cx.oracle_fail(i, &s, d); }
 }
 
 // ---------------------------------------------------------------------------------------------
@@ -739,12 +1083,13 @@ const NEUTRAL_TAILS: [&str; 26] = [
     "", ".dat", ".jsonl", ".csv", ".txt", ".gzz", ".g", ".z", ".bz", ".bz3", ".zs", ".zstdd", ".x", ".xzz",
     "gz", "-gz", ".gz.bak", ".gz ", ".tgz", ".GZ.txt", ".gz\u{130}p", ".g\u{212A}z", ".\u{ff47}\u{ff5a}", "_xz", ".bzip", ".gzi",
 ];
-const STEMS: [&str; 12] = ["x", "data", "a.b", "", "X.GZ", "BZh", "part-0001", "donn\u{e9}es", "archive.tar", ".hidden", "x.gz", "zst"];
+const STEMS: [&str; 15] = ["x", "data", "a.b", "", "X.GZ", "BZh", "part-0001", "donn\u{e9}es", "archive.tar", ".hidden", "x.gz", "zst",
+    "x[1]", "s*r", "w?y]"];
 const MIDS: [&str; 5] = ["", ".jsonl", ".csv", ".txt", ".JSONL"];
 const DIRS: [&str; 4] = ["sub.gz/", "d/", "A.XZ/", "n.bz2/"];
 
 fn all_exts() -> Vec<&'static str> {
-    SPEC.iter().flat_map(|x| x.1.iter().copied()).collect()
+    all_codecs().iter().flat_map(|x| x.1.iter().copied()).collect()
 }
 
 fn gen_name(cx: &mut Ctx) -> String {
@@ -762,6 +1107,25 @@ fn gen_name(cx: &mut Ctx) -> String {
     if name.is_empty() || name == "." || name == ".." { name = format!("f{name}"); }
     if cx.rng.chance(1, 7) { name = format!("{}{}", cx.rng.pick(&DIRS), name); }
     name
+}
+
+/// file names that are not valid UTF-8 (Linux allows any byte but `/` and NUL): a Latin-1 byte, a lone
+/// continuation byte, a truncated sequence — in the stem, with a codec extension or a neutral tail
+fn non_utf8_names(cx: &mut Ctx) -> Vec<Vec<u8>> {
+    let stems: [&[u8]; 4] = [b"caf\xe9", b"\x80x", b"d\xc3", b"a\xff\xfeb"];
+    let mut v = vec![];
+    for (k, e) in all_exts().iter().enumerate() {
+        let mut n = stems[k % stems.len()].to_vec();
+        n.extend_from_slice(b".jsonl");
+        n.extend_from_slice(case_variant(cx, e, k % 3).as_bytes());
+        v.push(n);
+    }
+    for t in [&b".dat"[..], b"", b".gz\xe9", b".g\xffz"] {
+        let mut n = stems[v.len() % stems.len()].to_vec();
+        n.extend_from_slice(t);
+        v.push(n);
+    }
+    v
 }
 
 const NAME_POOL: [&str; 12] = ["alice", "Bob", "BZ", "BZh", "BZh91AY&SY", "B", "x y", "7", "gz", "Zed-9", "BZH", "(paren"];
@@ -798,7 +1162,8 @@ fn payload_b(bytes: Vec<u8>) -> Payload {
 fn prefix_contents() -> Vec<Vec<u8>> {
     let mut v: Vec<Vec<u8>> = vec![vec![], b"BZ".to_vec(), b"BZ,1\nfoo,2\n".to_vec(), b"BZh".to_vec(), b"BZh91AY&SY garbage".to_vec(),
         b"hello, world\n".to_vec(), b"{\"name\":\"BZ\",\"n\":1}\n".to_vec(), b"name,n\nBZ,1\n".to_vec(), vec![0x00], vec![0xff, 0xfe]];
-    for (_, _, s) in SPEC {
+    for (_, _, s) in all_codecs() {
+        let Some(s) = s else { continue };
         for k in 1..=s.len() {
             v.push(s[..k].to_vec());
             let mut t = s[..k].to_vec();
@@ -811,30 +1176,434 @@ fn prefix_contents() -> Vec<Vec<u8>> {
         a.extend_from_slice(b" tail tail tail");
         v.push(a);
     }
+    v.dedup();
     v
 }
 
-fn safe_shards(cx: &mut Ctx, n: usize) -> usize {
-    // `write_jsonl_par` panics for some (n, shards) (range start out of bounds — property C09's finding);
-    // only combinations inside its working domain are used here
-    let cands: Vec<usize> = [1usize, 2, 3, n.max(1)]
-        .into_iter()
-        .filter(|&k| {
-            let s = k.clamp(1, n.max(1));
-            let chunk = n.max(1).div_ceil(s);
-            (s - 1) * chunk <= n
-        })
-        .collect();
-    *cx.rng.pick(&cands)
+/// writer shard counts: `None` (the writers' own default: `num_cpus` based), 1, 2, 3, n
+fn gen_shards(cx: &mut Ctx, n: usize) -> Option<usize> {
+    match cx.rng.below(6) {
+        0 => None,
+        1 => Some(1),
+        2 => Some(2),
+        3 => Some(3),
+        4 => Some(n.max(1)),
+        _ => Some(n + 2), // more shards than rows: clamped
+    }
 }
 
 fn gen_opts(cx: &mut Ctx, n: usize) -> RtOpts {
-    RtOpts { shards: safe_shards(cx, n), per: *cx.rng.pick(&[1usize, 2, 3, 1000]), par: cx.rng.chance(1, 2) }
+    RtOpts { shards: gen_shards(cx, n), per: *cx.rng.pick(&[1usize, 2, 3, 1000]), par: cx.rng.chance(1, 2) }
+}
+
+/// fault placements in front of the first 6 bytes (what `read_head` itself reads)
+fn gen_head_faults(cx: &mut Ctx, with_error: bool) -> Vec<(usize, bool)> {
+    let k = 1 + cx.rng.below(3);
+    let mut offs: Vec<usize> = (0..k).map(|_| cx.rng.below(6)).collect();
+    offs.sort();
+    let mut f: Vec<(usize, bool)> = offs.into_iter().map(|o| (o, false)).collect();
+    if with_error {
+        let i = cx.rng.below(f.len());
+        f[i].1 = true;
+    }
+    f
+}
+
+// ---------------------------------------------------------------------------------------------
+// run hygiene: preflights, stall watchdog
+// ---------------------------------------------------------------------------------------------
+
+/// no finished case for this long = the real code hangs (a single case takes milliseconds to a few seconds)
+const STALL_LIMIT_S: u64 = 900;
+
+fn start_watchdog() {
+    std::thread::spawn(|| {
+        let mut last = HEART.load(Ordering::SeqCst);
+        let mut since = std::time::Instant::now();
+        loop {
+            std::thread::sleep(std::time::Duration::from_secs(5));
+            let now = HEART.load(Ordering::SeqCst);
+            if now != last { last = now; since = std::time::Instant::now(); continue; }
+            if since.elapsed().as_secs() > STALL_LIMIT_S {
+                eprintln!("C10: no case finished for {STALL_LIMIT_S} s after case #{now} - the code under test hangs; giving up");
+                std::process::exit(3);
+            }
+        }
+    });
+}
+
+fn preflight(cx: &mut Ctx, root: &Path) {
+    // can the codecs' own libraries run here? (xz preset 6 needs ~94 MiB per encoder; under a tight memory limit
+    // `XzEncoder::new` fails)
+    for (k, (c, _, sig)) in SPEC.iter().enumerate() {
+        let mut ok = false;
+        for attempt in 0..3 {
+            if guarded(|| { let z = enc(c, b"probe"); z.starts_with(sig) && dec(c, &z).as_deref() == Ok(&b"probe"[..]) }).is_ok_and(|b| b) { ok = true; break; }
+            std::thread::sleep(std::time::Duration::from_millis(200 * (attempt + 1)));
+        }
+        CODEC_OK[k].store(ok, Ordering::SeqCst);
+        if !ok { cx.notes.push(format!("the {c} library cannot be run in this environment (encoder creation fails: memory limit?): every case with a {c} extension or a {c} stream was SKIPPED (stat skipped:codec-unavailable); the other codecs were checked as usual")); }
+    }
+    // does the temp file system fold case?
+    let d = root.join("casefold");
+    let _ = std::fs::create_dir_all(&d);
+    let _ = std::fs::write(d.join("a"), b"1");
+    let _ = std::fs::write(d.join("A"), b"2");
+    let n = std::fs::read_dir(&d).map(|it| it.count()).unwrap_or(2);
+    FS_CASE_SENSITIVE.store(n == 2, Ordering::SeqCst);
+    if n != 2 { cx.notes.push("the temp file system folds case: glob directories hold one file per case-folded name".into()); }
+    let _ = std::fs::remove_dir_all(&d);
+}
+
+// ---------------------------------------------------------------------------------------------
+// the registry child: `ibh child c10 registry <fresh|used> <seed> <tier>`
+// ---------------------------------------------------------------------------------------------
+
+fn extras_tok() -> String {
+    USERS.iter().map(|(n, e, m)| format!("{}:{}:{}", n, e.join(","), m.map_or("none".to_string(), hx))).collect::<Vec<_>>().join(";")
+}
+
+/// Child process: the registry is process-wide state, so the cases that call `register_codec` run here.
+/// `fresh`: `register_codec` is the FIRST registry operation of the process; `used`: a detection came first.
+/// Prints the cases (request, real answer, non-trivial flag), oracle failures and statistics on stdout.
+pub fn child(args: &[String]) -> i32 {
+    if args.first().map(String::as_str) == Some("ping") { println!("PONG c10"); return 0; }
+    if args.first().map(String::as_str) != Some("registry") || args.len() < 4 { return 2; }
+    let pre = args[1].as_str();
+    let seed: u64 = args[2].parse().unwrap_or(1);
+    let tier = match args[3].as_str() { "thorough" => crate::ctx::Tier::Thorough, "search" => crate::ctx::Tier::Search, _ => crate::ctx::Tier::Quick };
+    if pre != "fresh" && pre != "used" { return 2; }
+    start_watchdog();
+    if pre == "used" {
+        // a detection (= `get_registry`) before the first `register_codec`
+        let w = observe_writer(Path::new("warm.gz"), b"warm-up");
+        if w != "gzip" { eprintln!("warm-up detection gave {w}"); }
+    }
+    for (n, e, m) in USERS {
+        let (header, xor): (&'static [u8], u8) = match n { "noop" => (NOOP_HEADER, 0), "rot" => (ROT_HEADER, 0x5a), _ => (ZED_HEADER, 0) };
+        register_codec(Arc::new(UserCodec { name: n, exts: e, magic: m, header, xor }));
+    }
+    WITH_USERS.store(true, Ordering::SeqCst);
+    *PREFIX.lock().unwrap() = format!("XREG {pre} {} ", extras_tok());
+    let mut cx = Ctx::new("C10", seed ^ 0x5ee0_c10c, tier);
+    let tmp = tempfile::tempdir().expect("tempdir");
+    let mut env = Env { root: tmp.path().to_path_buf(), next: 0 };
+    preflight(&mut cx, tmp.path());
+    registry_block(&mut cx, &mut env);
+    // hand the results to the parent
+    let mut out = String::new();
+    for ((req, real), nt) in cx.reqs.iter().zip(&cx.reals).zip(&cx.nontrivial) {
+        out.push_str(&format!("C\t{}\t{req}\t{real}\n", u8::from(*nt)));
+    }
+    for f in &cx.fails { out.push_str(&format!("F\t{}\t{}\t{}\n", f.case, f.signature, f.detail.replace(['\t', '\n'], " "))); }
+    for (k, v) in &cx.stats { if !k.starts_with("oracle_fail:") { out.push_str(&format!("S\t{k}\t{v}\n")); } }
+    for n in &cx.notes { out.push_str(&format!("N\t{}\n", n.replace(['\t', '\n'], " "))); }
+    out.push_str("END\n");
+    print!("{out}");
+    0
+}
+
+/// what the registry child checks: the table, detection for every built-in AND user extension / magic, round
+/// trips through every local entry point (and the cloud one for built-in extensions), genuine streams
+fn registry_block(cx: &mut Ctx, env: &mut Env) {
+    one_codecs(cx);
+    let exts = all_exts();
+    let contents = prefix_contents();
+    let mut names: Vec<String> = vec![];
+    for e in &exts {
+        for k in 0..2 { names.push(format!("x.jsonl{}", case_variant(cx, e, k))); }
+    }
+    names.push(".noop".into());
+    for t in ["", ".dat", ".jsonl", ".noo", ".noop.bak", ".rott", ".gz.bak", "noop"] { names.push(format!("x{t}")); }
+    names.push("sub.noop/x.jsonl".into());
+    let mut nd = 0;
+    for n in &names {
+        for c in &contents { one_detect(cx, n, c); nd += 1; }
+    }
+    cx.exhaustive_blocks.push(format!("XREG DETECT (child process with 3 user codecs registered): {} names (every built-in and user extension x {{lower, UPPER}}, neutral tails) x {} contents (prefixes of every built-in signature and of the user magic `ff fe`) = {nd} cases", names.len(), contents.len()));
+    // short first reads with user magic in play (the head collected is still the longest signature: 6 bytes)
+    let rows = vec![Row { name: "BZh".into(), n: 7 }, Row { name: "q".into(), n: 0 }];
+    let mut ns = 0;
+    for (c, _, _) in all_codecs() {
+        if !codec_ok(c) { continue; }
+        let z = enc(c, &jsonl_plain(&rows));
+        for sc in [&[1usize][..], &[2], &[1, 1, 1, 1, 1, 1, 1]] {
+            one_detect_sched(cx, "x.dat", &z, sc, &[]);
+            one_detect_sched(cx, "x.dat", &z, sc, &[(1, false)]);
+            ns += 2;
+        }
+    }
+    for c in [&[0xffu8][..], &[0xff, 0xfe], &[0xff, 0xfe, b'N']] { one_detect_sched(cx, "x.dat", c, &[1], &[]); ns += 1; }
+    cx.exhaustive_blocks.push(format!("XREG DETECTS: a genuine stream of every built-in and user codec under a neutral name, first reads of 1 / 2 bytes / byte-by-byte, with and without an Interrupted fault = {ns} cases"));
+    // round trips
+    let pj = payload_j(rows.clone());
+    let pc = payload_c(rows.clone(), true);
+    let o2 = RtOpts { shards: Some(2), per: 1, par: true };
+    let on = RtOpts { shards: None, per: 2, par: false };
+    let mut nrt = 0;
+    let rt_names: Vec<String> = {
+        let mut v: Vec<String> = exts.iter().enumerate().map(|(k, e)| format!("x.d{}", case_variant(cx, e, k % 3))).collect();
+        v.push("x.dat".into());
+        v.push("x.noop.bak".into());
+        v
+    };
+    for (k, n) in rt_names.iter().enumerate() {
+        let user_ext = spec_ext(n).is_some_and(|c| USERS.iter().any(|u| u.0 == c));
+        for w in J_WRITERS {
+            // the cloud writer does not consult the registry: an object key with a USER codec's extension is outside
+            // the property (which speaks of the built-in codecs)
+            if w == W::CloudJsonl && user_ext { cx.count("xreg:skipped(cloud writer x user extension: outside the property)"); continue; }
+            let r = if w == W::CloudJsonl { R::CloudJsonl } else { J_READERS[(k + nrt) % 4] };
+            one_rt(cx, env, w, r, n, &pj, if nrt % 2 == 0 { &o2 } else { &on });
+            nrt += 1;
+        }
+        for w in C_WRITERS {
+            one_rt(cx, env, w, C_READERS[(k + nrt) % C_READERS.len()], n, &pc, if nrt % 2 == 0 { &o2 } else { &on });
+            nrt += 1;
+        }
+    }
+    cx.exhaustive_blocks.push(format!("XREG RT: every writer entry point x {} names (every built-in and user extension + 2 neutral) with rotating readers = {nrt} cases", rt_names.len()));
+    let mut nrd = 0;
+    for n in ["x.dat", "x", "x.NOOP", "x.myext", "x.gz"] {
+        for (c, _, _) in all_codecs() {
+            one_rd(cx, env, J_READERS[nrd % 4], n, Some(c), &pj, &o2);
+            one_rd(cx, env, C_READERS[nrd % 4], n, Some(c), &pc, &on);
+            nrd += 2;
+        }
+        one_rd(cx, env, R::JsonlVec, n, None, &pj, &o2);
+        one_rd(cx, env, R::Raw, n, None, &payload_b(vec![0xff, 0xfe, b'x']), &o2);
+        nrd += 2;
+    }
+    cx.exhaustive_blocks.push(format!("XREG RD: a genuine stream of every built-in and user codec under neutral / user-extension / built-in names = {nrd} cases"));
+}
+
+/// run one registry child with a watchdog; `None` = it did not complete
+fn spawn_registry_child(pre: &str, seed: u64, tier: crate::ctx::Tier, limit_s: u64) -> Option<String> {
+    use std::process::{Command, Stdio};
+    let exe = std::env::current_exe().ok()?;
+    let tier_s = match tier { crate::ctx::Tier::Thorough => "thorough", crate::ctx::Tier::Search => "search", _ => "quick" };
+    let mut ch = Command::new(exe)
+        .args(["child", "c10", "registry", pre, &seed.to_string(), tier_s])
+        .stdin(Stdio::null()).stdout(Stdio::piped()).stderr(Stdio::null())
+        .spawn().ok()?;
+    let mut so = ch.stdout.take()?;
+    let reader = std::thread::spawn(move || { let mut s = String::new(); let _ = so.read_to_string(&mut s); s });
+    let t0 = std::time::Instant::now();
+    loop {
+        match ch.try_wait() {
+            Ok(Some(st)) => {
+                let out = reader.join().unwrap_or_default();
+                return if st.success() && out.ends_with("END\n") { Some(out) } else { None };
+            }
+            Ok(None) => {
+                if t0.elapsed().as_secs() > limit_s { let _ = ch.kill(); let _ = ch.wait(); return None; }
+                std::thread::sleep(std::time::Duration::from_millis(50));
+                HEART.fetch_add(1, Ordering::SeqCst);
+            }
+            Err(_) => return None,
+        }
+    }
+}
+
+/// is `ibh child c10 ...` dispatched to `c10::child` (one line in `main.rs::child`)?
+fn child_entry_wired() -> bool {
+    let Ok(exe) = std::env::current_exe() else { return false };
+    for _ in 0..3 {
+        if let Ok(o) = std::process::Command::new(&exe).args(["child", "c10", "ping"]).stdin(std::process::Stdio::null()).output() {
+            if o.status.success() && String::from_utf8_lossy(&o.stdout).starts_with("PONG c10") { return true; }
+            if o.status.code() == Some(2) { return false; }
+        }
+        std::thread::sleep(std::time::Duration::from_millis(300));
+    }
+    false
+}
+
+fn registry_children(cx: &mut Ctx) {
+    if !child_entry_wired() {
+        cx.notes.push("THE REGISTRY BLOCK DID NOT RUN: `ibh child c10 ping` is not answered - add `Some(\"c10\") => c10::child(&args[1..]),` to `main.rs::child` (register_codec changes process-wide state, so these cases need a child process)".into());
+        cx.count("xreg:child-entry-not-wired");
+        return;
+    }
+    for pre in ["fresh", "used"] {
+        let mut out = spawn_registry_child(pre, cx.seed, cx.tier, 600);
+        if out.is_none() {
+            cx.count("xreg:child-retried");
+            out = spawn_registry_child(pre, cx.seed, cx.tier, 1200);
+        }
+        let Some(out) = out else {
+            let i = emit(cx, format!("XREG {pre} {} CODECS", extras_tok()), "CHILD-DID-NOT-COMPLETE".into(), true);
+            cx.oracle_fail(i, "registry-child-did-not-complete", format!("`ibh child c10 registry {pre}` crashed or hung twice (10 and 20 minute limits): the code under test aborts or hangs once user codecs are registered"));
+            continue;
+        };
+        let base = cx.reqs.len();
+        for line in out.lines() {
+            let f: Vec<&str> = line.splitn(4, '\t').collect();
+            match f.as_slice() {
+                ["C", nt, req, real] => { HEART.fetch_add(1, Ordering::SeqCst); cx.case((*req).to_string(), (*real).to_string(), *nt == "1"); }
+                ["F", k, sig, detail] => { if let Ok(k) = k.parse::<usize>() { cx.oracle_fail(base + k, sig, (*detail).to_string()); } }
+                ["S", k, v] => { cx.count_n(&format!("xreg:{k}"), v.parse().unwrap_or(0)); }
+                ["N", n] => cx.notes.push(format!("registry child ({pre}): {n}")),
+                _ => {}
+            }
+        }
+        cx.count(&format!("xreg:child-completed:{pre}"));
+    }
+    cx.exhaustive_blocks.push("XREG: two CHILD PROCESSES register three user codecs (`noop`: extension .noop, magic ff fe; `rot`: extensions .rot/.myext, no magic; `zed`: extension `z` = a suffix of .gz/.xz, magic 1f = a prefix of gzip's, so that registry ORDER matters) — one as its very first registry operation, one after a detection — and re-run CODECS, the small-scope DETECT / DETECTS blocks, RT through every entry point and RD; the model answers from its registry STATE (`Registry.run`)".into());
+}
+
+// ---------------------------------------------------------------------------------------------
+// concurrent detection (the registry is shared by all threads)
+// ---------------------------------------------------------------------------------------------
+
+/// `threads` threads hammer `auto_detect_reader` / `auto_detect_writer` at the same time on a fixed list of probes.
+/// The expectation is deterministic (every call must give the sequential answer): contention only adds power.
+fn conc_detect(cx: &mut Ctx, threads: usize, iters: usize) {
+    let rows = jsonl_plain(&[Row { name: "a".into(), n: 1 }, Row { name: "BZh".into(), n: 2 }]);
+    let mut probes: Vec<(String, Vec<u8>)> = vec![("c.csv".into(), b"BZ,1\nfoo,2\n".to_vec()), ("c.jsonl".into(), rows.clone())];
+    for (n1, n2, c) in [("c.jsonl.gz", "c.dat", "gzip"), ("c.ZST", "c", "zstd"), ("c.bz2", "c.txt", "bzip2")] {
+        if codec_ok(c) { probes.push((n1.into(), enc(c, &rows))); probes.push((n2.into(), enc(c, &rows))); }
+    }
+    if codec_ok("xz") {
+        // preset 0: a small dictionary keeps the decoders cheap
+        probes.push(("c.xz".into(), enc_xz(&rows, 0)));
+        probes.push(("c.bin".into(), enc_xz(&rows, 0)));
+    }
+    let wprobes: Vec<&str> = if codec_ok("gzip") { vec!["w.gz", "w.GZIP", "w.dat", "w.gz.bak"] } else { vec!["w.dat", "w.gz.bak"] };
+    let np = probes.len();
+    let want_of = |k: usize| -> &'static str {
+        if k < np { spec_ext(&probes[k].0).or(spec_sig(&probes[k].1)).unwrap_or("plain") } else { spec_ext(wprobes[k - np]).unwrap_or("plain") }
+    };
+    // one concurrent round: for every probe the set of distinct decisions any thread saw, folded into one answer
+    let round = || -> Vec<String> {
+        let results: Vec<Vec<std::collections::BTreeSet<String>>> = std::thread::scope(|s| {
+            let hs: Vec<_> = (0..threads).map(|t| {
+                let probes = &probes;
+                let wprobes = &wprobes;
+                s.spawn(move || {
+                    let mut seen: Vec<std::collections::BTreeSet<String>> = vec![Default::default(); probes.len() + wprobes.len()];
+                    for it in 0..iters {
+                        for k in 0..probes.len() {
+                            let j = (k + t + it) % probes.len();
+                            let (n, c) = &probes[j];
+                            let want = spec_ext(n).or(spec_sig(c)).unwrap_or("plain");
+                            seen[j].insert(observe_reader_src(Path::new(n), c, &[], &[], want));
+                        }
+                        if it % 8 == 0 {
+                            for (k, n) in wprobes.iter().enumerate() { seen[probes.len() + k].insert(observe_writer(Path::new(n), b"probe-payload 0123456789\n")); }
+                        }
+                        HEART.fetch_add(1, Ordering::SeqCst);
+                    }
+                    seen
+                })
+            }).collect();
+            hs.into_iter().map(|h| h.join().unwrap_or_default()).collect()
+        });
+        (0..np + wprobes.len()).map(|k| {
+            let mut all = std::collections::BTreeSet::new();
+            for r in &results { if let Some(s) = r.get(k) { all.extend(s.iter().cloned()); } }
+            if all.len() == 1 { all.into_iter().next().unwrap() } else { format!("UNSTABLE({})", all.into_iter().collect::<Vec<_>>().join("|")) }
+        }).collect()
+    };
+    let mut ans = round();
+    if (0..ans.len()).any(|k| ans[k] != want_of(k)) {
+        // confirm by re-execution: a probe is reported only if it deviates in BOTH rounds
+        let again = round();
+        for k in 0..ans.len() {
+            if ans[k] != want_of(k) && again[k] == want_of(k) { cx.count("unconfirmed-failure(not repeated on re-execution)"); ans[k] = again[k].clone(); }
+        }
+    }
+    let mut n = 0;
+    for (k, (name, content)) in probes.iter().enumerate() {
+        let (want, r) = (want_of(k), &ans[k]);
+        let i = emit(cx, format!("DETECTS - - {} {}", hx(name.as_bytes()), hx(content)), format!("R={r}"), true);
+        cx.count("conc:reader-probe");
+        if r != want { cx.oracle_fail(i, "concurrent-detection-differs-from-sequential", format!("{threads} threads x {iters} rounds of auto_detect_reader on {name:?} (seen in two runs): decisions {r}, specification says {want}")); }
+        n += 1;
+    }
+    for (k, name) in wprobes.iter().enumerate() {
+        let (want, w) = (want_of(np + k), &ans[np + k]);
+        // the reader half of the DETECT answer is taken sequentially (empty content: plain / the extension's codec)
+        let r = observe_reader_src(Path::new(name), b"", &[], &[], want);
+        let i = emit(cx, format!("DETECT {} -", hx(name.as_bytes())), format!("R={r} W={w}"), true);
+        cx.count("conc:writer-probe");
+        if w != want { cx.oracle_fail(i, "concurrent-detection-differs-from-sequential", format!("{threads} threads of auto_detect_writer on {name:?} (seen in two runs): decisions {w}, specification says {want}")); }
+        n += 1;
+    }
+    cx.exhaustive_blocks.push(format!("CONC: {threads} threads x {iters} rounds call auto_detect_reader on {} probes (every codec by extension and by signature, plain text) and auto_detect_writer on {} names AT THE SAME TIME; every single call must give the sequential decision = {n} cases", probes.len(), wprobes.len()));
+}
+
+/// 4 threads write and read back through different entry points under different codec names at the same time
+fn conc_rt(cx: &mut Ctx, env: &mut Env) {
+    let rows: Vec<Row> = (0..40).map(|i| Row { name: format!("r{i}"), n: i * 31 - 7 }).collect();
+    let pj = payload_j(rows.clone());
+    let pc = payload_c(rows, true);
+    let o = RtOpts { shards: Some(3), per: 7, par: true };
+    let mut jobs: Vec<(W, R, String, Payload, PathBuf)> = vec![];
+    for round in 0..2 {
+        for (k, (_, exts, _)) in SPEC.iter().enumerate() {
+            let e = exts[round % exts.len()];
+            let (w, r, pl) = match (k + round) % 4 {
+                0 => (W::JsonlPar, R::JsonlStreaming, pj.clone()),
+                1 => (W::CsvPar, R::CsvStreaming, pc.clone()),
+                2 => (W::JsonlVec, R::JsonlHelper, pj.clone()),
+                _ => (W::CsvAlias, R::CsvVec, pc.clone()),
+            };
+            let name = format!("t{round}{k}.d{e}");
+            if xz_skipped(name.as_bytes(), None) { continue; }
+            let path = env.fresh(Path::new(&name));
+            jobs.push((w, r, name, pl, path));
+        }
+    }
+    let mut n = 0;
+    for batch in jobs.chunks(4) {
+        let run_batch = || -> Vec<RtOut> {
+            std::thread::scope(|s| {
+                let hs: Vec<_> = batch.iter().map(|(w, r, name, pl, path)| s.spawn(move || exec_rt(*w, *r, path, name, pl, &o))).collect();
+                hs.into_iter().map(|h| h.join().unwrap_or(RtOut { wc: "PANIC".into(), rc: "FAIL".into(), detail: "thread died".into(), reader_panicked: false })).collect()
+            })
+        };
+        let outs = run_batch();
+        // confirm by re-execution: the whole batch once more, concurrently
+        let again: Option<Vec<RtOut>> = if batch.iter().zip(&outs).any(|((w, r, name, pl, _), out)| !judge_rt(*w, *r, name.as_bytes(), name, pl, out).is_empty()) { Some(run_batch()) } else { None };
+        for (k, ((w, r, name, pl, _), out)) in batch.iter().zip(outs).enumerate() {
+            let mut out = out;
+            let mut fails = judge_rt(*w, *r, name.as_bytes(), name, pl, &out);
+            if !fails.is_empty() {
+                if let Some(a) = &again {
+                    let f2 = judge_rt(*w, *r, name.as_bytes(), name, pl, &a[k]);
+                    if f2.is_empty() {
+                        cx.count("unconfirmed-failure(not repeated on re-execution)");
+                        out = RtOut { wc: a[k].wc.clone(), rc: a[k].rc.clone(), detail: a[k].detail.clone(), reader_panicked: a[k].reader_panicked };
+                        fails = f2;
+                    }
+                }
+            }
+            emit_rt(cx, *w, *r, name.as_bytes(), pl, &o, &out, fails);
+            cx.count("conc:rt");
+            n += 1;
+        }
+    }
+    let dir = env.root.join(format!("{}", env.next));
+    let _ = std::fs::remove_dir_all(dir);
+    cx.exhaustive_blocks.push(format!("CONC RT: batches of 4 threads, each writing and reading back through a different entry point under a different codec's extension at the same time = {n} cases"));
+}
+
+// ---------------------------------------------------------------------------------------------
+// the run
+// ---------------------------------------------------------------------------------------------
+
+/// wall time per block, for the evidence (a run-quality figure, never compared)
+fn lap(cx: &mut Ctx, t: &mut std::time::Instant, what: &str) {
+    cx.count_n(&format!("time_ms:{what}"), t.elapsed().as_millis() as u64);
+    *t = std::time::Instant::now();
 }
 
 pub fn run(cx: &mut Ctx) {
+    let mut t = std::time::Instant::now();
     let tmp = tempfile::tempdir().expect("tempdir");
     let mut env = Env { root: tmp.path().to_path_buf(), next: 0 };
+    start_watchdog();
+    preflight(cx, tmp.path());
 
     // ---- (0) tables and the lower-casing assumption ----
     one_codecs(cx);
@@ -852,14 +1621,16 @@ pub fn run(cx: &mut Ctx) {
     cx.count_n("lower:unicode-scalars-checked", 0x110000 - 0x800);
     cx.count_n("lower:model-mismatch", mism);
     cx.exhaustive_blocks.push("LOWER: every Unicode scalar value: ASCII shape of char::to_lowercase == the model's lowerChar (mismatches are sent to the driver and show up as disagreements)".into());
-    for s in ["ABCXYZ.Gz", "x.GZ\u{130}P", "\u{212A}elvin.XZ", "\u{c9}T\u{c9}.BZ2", "@[`{AZaz", "\u{3a3}\u{3a3}.zst", "\u{ff27}\u{ff3a}"] {
+    for s in ["ABCXYZ.Gz", "x.GZ\u{130}P", "\u{212A}elvin.XZ", "\u{c9}T\u{c9}.BZ2", "@[`{AZaz", "\u{3a3}\u{3a3}.zst", "\u{ff27}\u{ff3a}", "caf\u{fffd}.jsonl.GZ"] {
         one_lower(cx, s);
     }
     for cp in 0u32..128 { one_lower(cx, &char::from_u32(cp).unwrap().to_string()); }
 
+    lap(cx, &mut t, "lower");
     // ---- (1) corpus: the design witnesses ----
     let w3 = vec![Row { name: "a".into(), n: 1 }, Row { name: "b".into(), n: 2 }, Row { name: "c".into(), n: 3 }, Row { name: "d".into(), n: 4 }];
-    let o2 = RtOpts { shards: 2, per: 2, par: false };
+    let o2 = RtOpts { shards: Some(2), per: 2, par: false };
+    let on = RtOpts { shards: None, per: 2, par: true };
     one_rt(cx, &mut env, W::JsonlPar, R::JsonlVec, "x.jsonl.gz", &payload_j(w3.clone()), &o2);
     one_rt(cx, &mut env, W::CsvPar, R::CsvVec, "x.csv.gz", &payload_c(w3.clone(), false), &o2);
     one_rt(cx, &mut env, W::PcJsonlPar, R::JsonlVec, "x.jsonl.zst", &payload_j(w3.clone()), &o2);
@@ -867,6 +1638,15 @@ pub fn run(cx: &mut Ctx) {
     one_rt(cx, &mut env, W::CsvPar, R::CsvVec, "e.csv.xz", &payload_c(vec![], true), &o2);
     one_rt(cx, &mut env, W::CloudJsonl, R::CloudJsonl, "dir/.gz", &payload_j(w3.clone()), &o2);
     one_rt(cx, &mut env, W::CloudJsonl, R::CloudJsonl, ".bz2", &payload_j(w3.clone()), &o2);
+    // shards = None (the writers' own default), the `write_csv` alias, PCollection::write_csv_par(Some(k))
+    one_rt(cx, &mut env, W::JsonlPar, R::JsonlStreaming, "n.jsonl.zst", &payload_j(w3.clone()), &on);
+    one_rt(cx, &mut env, W::CsvPar, R::CsvStreaming, "n.csv.bz2", &payload_c(w3.clone(), true), &on);
+    one_rt(cx, &mut env, W::CsvAlias, R::CsvVec, "alias.csv.gz", &payload_c(w3.clone(), true), &o2);
+    one_rt(cx, &mut env, W::PcCsvPar, R::CsvHelper, "pc.csv.ZST", &payload_c(w3.clone(), true), &o2);
+    one_rt(cx, &mut env, W::PcCsvPar, R::CsvVec, "pc.csv.gzip", &payload_c(w3.clone(), false), &on);
+    // a name with glob metacharacters: the helper readers get the escaped pattern
+    one_rt(cx, &mut env, W::JsonlVec, R::JsonlHelper, "x[1].jsonl.gz", &payload_j(w3.clone()), &o2);
+    one_rt(cx, &mut env, W::CsvVec, R::CsvHelper, "s*r?.csv.xz", &payload_c(w3.clone(), true), &o2);
     let bz = vec![Row { name: "BZ".into(), n: 1 }, Row { name: "foo".into(), n: 2 }];
     one_rd(cx, &mut env, R::CsvVec, "plain.csv", None, &payload_c(bz.clone(), false), &o2);
     one_rt(cx, &mut env, W::CsvVec, R::CsvVec, "plain.csv", &payload_c(bz.clone(), false), &o2);
@@ -883,15 +1663,20 @@ pub fn run(cx: &mut Ctx) {
         one_glob(cx, &mut env, G::LocalJsonl, &fj, &o2);
         one_glob(cx, &mut env, G::CloudJsonl, &fj, &o2);
         let fc = vec![("a.csv.xz".to_string(), W::CsvPar, payload_c(a.clone(), true)), ("b.csv".to_string(), W::CsvVec, payload_c(b.clone(), true)),
-            ("c.csv.Bz2".to_string(), W::PcCsvPar, payload_c(c.clone(), true)), ("d.gzip".to_string(), W::PcCsv, payload_c(a.clone(), true))];
+            ("c.csv.Bz2".to_string(), W::PcCsvPar, payload_c(c.clone(), true)), ("d.gzip".to_string(), W::CsvAlias, payload_c(a.clone(), true))];
         one_glob(cx, &mut env, G::LocalCsv, &fc, &o2);
     }
-    // a genuine stream under a neutral name whose source delivers its first byte alone
+    // a genuine stream under a neutral name whose source delivers its first byte alone; the same with an
+    // `Interrupted` fault after that byte (EINTR on a pipe), and with a transient source ERROR after it
     for (c, _, _) in SPEC {
+        if xz_skipped(b"", Some(c)) { continue; }
         let g = enc(c, b"{\"name\":\"a\",\"n\":1}\n");
-        one_detect_sched(cx, "x.dat", &g, &[1]);
+        one_detect_sched(cx, "x.dat", &g, &[1], &[]);
+        one_detect_sched(cx, "x.dat", &g, &[1], &[(1, false)]);
+        one_detect_sched(cx, "x.dat", &g, &[], &[(1, true)]);
     }
 
+    lap(cx, &mut t, "corpus");
     // ---- (2) exhaustive small scope ----
     let exts = all_exts();
     let contents = prefix_contents();
@@ -904,6 +1689,7 @@ pub fn run(cx: &mut Ctx) {
     }
     for t in NEUTRAL_TAILS { names.push(format!("x{t}")); }
     names.push("sub.gz/x.jsonl".into());
+    names.push("x[1].gz".into());
     let mut nd = 0;
     for n in &names {
         for c in &contents {
@@ -913,6 +1699,30 @@ pub fn run(cx: &mut Ctx) {
     }
     cx.exhaustive_blocks.push(format!("DETECT: {} names (every extension x {{lower, UPPER, Capitalised}}, bare extensions, {} neutral tails, a directory carrying an extension) x {} contents (every non-empty prefix of every signature alone and followed by text, each signature with its last byte flipped, 'BZ' witnesses, empty) = {nd} cases", names.len(), NEUTRAL_TAILS.len(), contents.len()));
 
+    lap(cx, &mut t, "detect");
+    // names that are not valid UTF-8 (oracle: the ASCII-case-insensitive suffix of the name's bytes decides)
+    let bzh = vec![Row { name: "BZh".into(), n: 7 }, Row { name: "BZ".into(), n: -1 }, Row { name: "q".into(), n: 0 }];
+    let mut no = 0;
+    for (k, raw) in non_utf8_names(cx).iter().enumerate() {
+        let mut cs: Vec<Vec<u8>> = vec![b"BZ,1\n".to_vec(), vec![]];
+        for c in ["gzip", "zstd"] { if codec_ok(c) { cs.push(enc(c, b"x\n")); } }
+        for c in &cs { one_detect_raw(cx, raw, c); no += 1; }
+        let ow = [W::Raw, W::JsonlVec, W::JsonlPar, W::PcJsonl, W::PcJsonlPar];
+        let or = [R::Raw, R::JsonlVec, R::JsonlStreaming];
+        for (j, w) in ow.iter().enumerate() {
+            one_rt_raw(cx, &mut env, *w, or[(j + k) % 3], raw, &payload_j(bzh.clone()), if (j + k) % 2 == 0 { &o2 } else { &on });
+            no += 1;
+        }
+        let cw = [W::CsvVec, W::CsvPar, W::CsvAlias, W::PcCsv, W::PcCsvPar];
+        let cr = [R::Raw, R::CsvVec, R::CsvStreaming];
+        for (j, w) in cw.iter().enumerate() {
+            one_rt_raw(cx, &mut env, *w, cr[(j + k) % 3], raw, &payload_c(bzh.clone(), true), if (j + k) % 2 == 0 { &on } else { &o2 });
+            no += 1;
+        }
+    }
+    cx.exhaustive_blocks.push(format!("ODETECT / ORT: file names that are NOT valid UTF-8 (a Latin-1 byte, a lone continuation byte, a truncated sequence; every extension + neutral tails) x detection and every LOCAL writer entry point with rotating readers (the helper readers reject such paths before any I/O; cloud keys are `&str`) = {no} cases"));
+
+    lap(cx, &mut t, "non-utf8");
     let rt_names: Vec<String> = {
         let mut v = vec![];
         for e in &exts {
@@ -922,26 +1732,26 @@ pub fn run(cx: &mut Ctx) {
         v.push("x.gz.bak".into());
         v
     };
-    let bzh = vec![Row { name: "BZh".into(), n: 7 }, Row { name: "BZ".into(), n: -1 }, Row { name: "q".into(), n: 0 }];
     let j_payloads = vec![payload_j(vec![]), payload_j(bzh.clone())];
     let c_payloads = vec![payload_c(vec![], true), payload_c(bzh.clone(), false), payload_c(bzh.clone(), true)];
     let mut nrt = 0;
     for n in &rt_names {
         for pl in &j_payloads {
             for w in J_WRITERS { for r in J_READERS {
-                one_rt(cx, &mut env, w, r, n, pl, &RtOpts { shards: 2, per: 2, par: nrt % 2 == 0 });
+                one_rt(cx, &mut env, w, r, n, pl, &RtOpts { shards: if nrt % 5 == 4 { None } else { Some(2) }, per: 2, par: nrt % 2 == 0 });
                 nrt += 1;
             } }
         }
         for pl in &c_payloads {
             for w in C_WRITERS { for r in C_READERS {
-                one_rt(cx, &mut env, w, r, n, pl, &RtOpts { shards: 2, per: 2, par: nrt % 2 == 0 });
+                one_rt(cx, &mut env, w, r, n, pl, &RtOpts { shards: if nrt % 5 == 4 { None } else { Some(2) }, per: 2, par: nrt % 2 == 0 });
                 nrt += 1;
             } }
         }
     }
-    cx.exhaustive_blocks.push(format!("RT: every writer entry point x every reader entry point of the same format (6x5 JSONL, 5x4 CSV) x {} names (every extension in {} case variants + 2 neutral) x payloads {{empty, 3 rows whose text starts 'BZh' (csv without header), same with header}} = {nrt} cases", rt_names.len(), cx.budget(2, 3)));
+    cx.exhaustive_blocks.push(format!("RT: every writer entry point x every reader entry point of the same format (6x5 JSONL, 6x4 CSV incl. the `write_csv` alias) x {} names (every extension in {} case variants + 2 neutral) x payloads {{empty, 3 rows whose text starts 'BZh' (csv without header), same with header}}, shards Some(2) / None = {nrt} cases", rt_names.len(), cx.budget(2, 3)));
 
+    lap(cx, &mut t, "rt");
     // names that consist of nothing but the extension (dot-files), alone and inside a directory
     let mut nbare = 0;
     for e in &exts {
@@ -962,70 +1772,134 @@ pub fn run(cx: &mut Ctx) {
     }
     cx.exhaustive_blocks.push(format!("RT: names that are only an extension (`.gz`, `dir/.GZ`, ...) x every writer entry point = {nbare} cases"));
 
-    // genuine streams / raw content under every name class, through every reader
+    lap(cx, &mut t, "bare");
+    // genuine streams / raw content under every name class, through every reader; CSV with AND without header
     let mut nrd = 0;
-    let rd_names = ["x.dat", "x", "x.jsonl", "x.GZ", "x.zst", "x.Bz2", "x.xz", "x.gz.bak"];
+    let rd_names = ["x.dat", "x", "x.jsonl", "x.GZ", "x.zst", "x.Bz2", "x.xz", "x.gz.bak", "x[1].dat"];
     for n in rd_names {
         for (c, _, _) in SPEC {
             for r in J_READERS { one_rd(cx, &mut env, r, n, Some(c), &payload_j(bzh.clone()), &o2); nrd += 1; }
-            for r in C_READERS { one_rd(cx, &mut env, r, n, Some(c), &payload_c(bzh.clone(), false), &o2); nrd += 1; }
+            for r in C_READERS {
+                one_rd(cx, &mut env, r, n, Some(c), &payload_c(bzh.clone(), false), &o2);
+                one_rd(cx, &mut env, r, n, Some(c), &payload_c(bzh.clone(), true), &o2);
+                nrd += 2;
+            }
         }
         for r in J_READERS { one_rd(cx, &mut env, r, n, None, &payload_j(bzh.clone()), &o2); nrd += 1; }
         for r in C_READERS {
             one_rd(cx, &mut env, r, n, None, &payload_c(bzh.clone(), false), &o2);
+            one_rd(cx, &mut env, r, n, None, &payload_c(bzh.clone(), true), &o2);
             one_rd(cx, &mut env, r, n, None, &payload_c(bz.clone(), false), &o2);
-            nrd += 2;
+            nrd += 3;
         }
         for c in &contents { one_rd(cx, &mut env, R::Raw, n, None, &payload_b(c.clone()), &o2); nrd += 1; }
     }
-    cx.exhaustive_blocks.push(format!("RD: {} names x (genuine stream of every codec | plain text | every signature-prefix content) x every reader = {nrd} cases", rd_names.len()));
+    cx.exhaustive_blocks.push(format!("RD: {} names x (genuine stream of every codec | plain text | every signature-prefix content) x every reader (CSV readers with has_headers false AND true) = {nrd} cases", rd_names.len()));
 
-    // the reader's decision on sources that deliver their first bytes in short reads
+    lap(cx, &mut t, "rd");
+    // the reader's decision on sources that deliver their first bytes in short reads / raise I/O faults
     let scheds: [&[usize]; 7] = [&[1], &[1, 1, 1, 1, 1, 1, 1, 1], &[2], &[3, 1], &[5], &[6], &[1, 8192]];
     let mut nds = 0;
     let ds_names = ["x.dat", "x", "x.jsonl", "x.GZ", "x.csv.zst", "x.gz.bak"];
     let mut ds_contents: Vec<Vec<u8>> = contents.clone();
     for (c, _, _) in SPEC {
+        if xz_skipped(b"", Some(c)) { continue; }
         ds_contents.push(enc(c, &jsonl_plain(&bzh)));
         ds_contents.push(enc(c, b""));
     }
     for n in ds_names {
         for c in &ds_contents {
-            for sc in scheds { one_detect_sched(cx, n, c, sc); nds += 1; }
+            for sc in scheds { one_detect_sched(cx, n, c, sc, &[]); nds += 1; }
         }
     }
     cx.exhaustive_blocks.push(format!("DETECTS: {} names x {} contents (the signature-prefix contents + a genuine stream and an empty genuine stream of every codec) x {} read schedules (first read of 1, 2, 3, 5, 6 bytes; byte-by-byte; 1 then full) = {nds} cases", ds_names.len(), ds_contents.len(), scheds.len()));
+    // faults while the head is collected (neutral names only: under a codec extension the decoder reads the source
+    // itself): one Interrupted at every offset 0..5, two in a row, Interrupted + short reads; one transient error at
+    // every offset 0..5
+    let mut nfl = 0;
+    for n in ["x.dat", "x", "x.gz.bak"] {
+        for c in &ds_contents {
+            for off in 0..6usize {
+                one_detect_sched(cx, n, c, if off % 2 == 0 { &[] } else { &[1, 1, 1] }, &[(off, false)]);
+                nfl += 1;
+                if n == "x.dat" { one_detect_sched(cx, n, c, if off % 2 == 1 { &[] } else { &[2] }, &[(off, true)]); nfl += 1; }
+            }
+            one_detect_sched(cx, n, c, &[1], &[(1, false), (1, false)]);
+            one_detect_sched(cx, n, c, &[], &[(0, false), (3, false), (5, false)]);
+            nfl += 2;
+        }
+    }
+    // plain text: Interrupted anywhere (the pass-through is std's BufReader + read_to_end, which retry)
+    for off in [6usize, 7, 12, 13] {
+        one_detect_sched(cx, "x.txt", b"hello, world\nsecond line\n", &[4, 4], &[(off, false)]);
+        nfl += 1;
+    }
+    cx.exhaustive_blocks.push(format!("DETECTS with I/O faults: neutral names x the same contents x {{one Interrupted at each offset 0..5, two in a row, three spread; one transient error at each offset 0..5}}; Interrupted behind the head for plain text = {nfl} cases"));
 
+    lap(cx, &mut t, "detects");
     // content larger than the 8 KiB BufReader, plain and compressed, through every entry point
     let mut nbig = 0;
     {
-        let big: Vec<Row> = (0..cx.budget(700, 1100)).map(|i| Row { name: big_name(cx), n: i as i64 * 7919 - 1000 }).collect();
+        let big: Vec<Row> = (0..cx.budget(700, 1100)).map(|i| Row { name: big_name(cx, 24), n: i as i64 * 7919 - 1000 }).collect();
         let pj = payload_j(big.clone());
         let pc = payload_c(big.clone(), true);
         for (c, _, _) in SPEC {
+            if xz_skipped(b"", Some(c)) { continue; }
             let zj = enc(c, &pj.plain);
             let zc = enc(c, &pc.plain);
             cx.count(&format!("big:compressed-size>{}", if zj.len() > 8192 && zc.len() > 8192 { "8KiB" } else { "SMALL(unexpected)" }));
         }
         // writer shards 2 / 1: every part file / buffer of the parallel writers is itself larger than 8 KiB
-        let ob = RtOpts { shards: 2, per: 100, par: true };
-        let os = RtOpts { shards: 1, per: 64, par: false };
+        let ob = RtOpts { shards: Some(2), per: 100, par: true };
+        let os = RtOpts { shards: Some(1), per: 64, par: false };
         cx.count(&format!("big:smallest-part-bytes>{}", if pj.plain.len() / 2 > 8192 + 64 && pc.plain.len() / 2 > 8192 + 64 { "8KiB" } else { "SMALL(unexpected)" }));
         for (k, n) in ["big.d.gz", "big.d.ZST", "big.d.bz2", "big.d.xz", "big.dat"].iter().enumerate() {
             for w in J_WRITERS { let r = J_READERS[(k + nbig) % J_READERS.len()]; one_rt(cx, &mut env, w, r, n, &pj, if nbig % 2 == 0 { &ob } else { &os }); nbig += 1; }
             for w in C_WRITERS { let r = C_READERS[(k + nbig) % C_READERS.len()]; one_rt(cx, &mut env, w, r, n, &pc, if nbig % 2 == 0 { &ob } else { &os }); nbig += 1; }
         }
         for (c, _, _) in SPEC {
+            if xz_skipped(b"", Some(c)) { continue; }
             for r in J_READERS { one_rd(cx, &mut env, r, "big.dat", Some(c), &pj, &ob); nbig += 1; }
             for r in C_READERS { one_rd(cx, &mut env, r, "big", Some(c), &pc, &os); nbig += 1; }
             let z = enc(c, &pj.plain);
-            one_detect_sched(cx, "big.dat", &z, &[1]);
-            one_detect_sched(cx, "big.dat", &z, &[]);
-            nbig += 2;
+            one_detect_sched(cx, "big.dat", &z, &[1], &[]);
+            one_detect_sched(cx, "big.dat", &z, &[], &[]);
+            one_detect_sched(cx, "big.dat", &z, &[2, 1], &[(2, false)]);
+            nbig += 3;
         }
     }
     cx.exhaustive_blocks.push(format!("BIG: one data set whose plain and compressed forms both exceed the 8 KiB reader buffer: every writer entry point x 5 names (4 codecs + neutral) with rotating readers; a genuine stream of every codec under a neutral name through every reader; short-first-read detection = {nbig} cases"));
 
+    lap(cx, &mut t, "big");
+    // one data set whose single shard buffers / part files exceed the encoders' own buffers (flate2: 32 KiB of output
+    // per `write` call; zstd: one 128 KiB block per call): a writer that calls `write` where it must call `write_all`
+    // loses data only from here on. gzip and zstd only (cheap).
+    let mut nhuge = 0;
+    {
+        let rows: Vec<Row> = (0..2000).map(|i| Row { name: big_name(cx, 160), n: i as i64 * 104729 - 5 }).collect();
+        let pj = payload_j(rows.clone());
+        let pc = payload_c(rows, true);
+        cx.count(&format!("huge:plain-bytes>{}", if pj.plain.len() > 300 * 1024 && pc.plain.len() > 300 * 1024 { "300KiB" } else { "SMALL(unexpected)" }));
+        cx.count(&format!("huge:half>{}", if pc.plain.len() / 2 > 140 * 1024 { "140KiB" } else { "SMALL(unexpected)" }));
+        let o1 = RtOpts { shards: Some(1), per: 500, par: true };
+        let o2h = RtOpts { shards: Some(2), per: 1000, par: false };
+        one_rt(cx, &mut env, W::CsvPar, R::CsvVec, "huge.csv.gz", &pc, &o1);
+        one_rt(cx, &mut env, W::CsvPar, R::CsvStreaming, "huge.csv.zst", &pc, &o2h);
+        one_rt(cx, &mut env, W::JsonlPar, R::JsonlVec, "huge.jsonl.zst", &pj, &o1);
+        one_rt(cx, &mut env, W::JsonlPar, R::JsonlStreaming, "huge.jsonl.GZ", &pj, &o2h);
+        nhuge += 4;
+        if cx.tier != crate::ctx::Tier::Quick {
+            one_rt(cx, &mut env, W::CsvPar, R::CsvVec, "huge.csv.zstd", &pc, &o1);
+            one_rt(cx, &mut env, W::CsvPar, R::CsvVec, "huge.csv.gzip", &pc, &o2h);
+            one_rt(cx, &mut env, W::PcJsonlPar, R::JsonlVec, "huge.jsonl.gz", &pj, &o1);
+            one_rt(cx, &mut env, W::CsvVec, R::CsvHelper, "huge2.csv.zst", &pc, &o1);
+            one_rt(cx, &mut env, W::CloudJsonl, R::CloudJsonl, "huge.jsonl.zst", &pj, &o1);
+            nhuge += 5;
+        }
+    }
+    cx.exhaustive_blocks.push(format!("HUGE: one data set of > 300 KiB plain text that compresses badly, through write_csv_par / write_jsonl_par with 1 and 2 shards under .gz / .zst names (each shard buffer / part file > 140 KiB: beyond flate2's 32 KiB output buffer and zstd's 128 KiB block) = {nhuge} cases"));
+
+    lap(cx, &mut t, "huge");
     // glob reads: every codec side by side in one directory / key prefix
     let mut ngl = 0;
     for g in [G::LocalJsonl, G::LocalCsv, G::CloudJsonl] {
@@ -1035,19 +1909,28 @@ pub fn run(cx: &mut Ctx) {
             for (k, e) in exts.iter().enumerate() {
                 let recs = vec![Row { name: format!("r{k}"), n: k as i64 }, Row { name: "BZh".into(), n: -(k as i64) }];
                 let name = format!("f{k}.d{}", case_variant(cx, e, variant % 4));
-                let (w, pl) = if g == G::LocalCsv { (C_WRITERS[1 + (k + variant) % 4], payload_c(recs, h)) } else { (J_WRITERS[1 + (k + variant) % 4], payload_j(recs)) };
+                let (w, pl) = if g == G::LocalCsv { (C_WRITERS[1 + (k + variant) % 5], payload_c(recs, h)) } else { (J_WRITERS[1 + (k + variant) % 4], payload_j(recs)) };
                 files.push((name, w, pl));
             }
             let plain_recs = vec![Row { name: "plain".into(), n: 0 }];
-            files.push(("m.dat".to_string(), if g == G::LocalCsv { W::CsvVec } else { W::JsonlVec }, if g == G::LocalCsv { payload_c(plain_recs, h) } else { payload_j(plain_recs) }));
-            one_glob(cx, &mut env, g, &files, &RtOpts { shards: 1 + variant % 3, per: 2, par: false });
+            files.push(("m[1].dat".to_string(), if g == G::LocalCsv { W::CsvVec } else { W::JsonlVec }, if g == G::LocalCsv { payload_c(plain_recs, h) } else { payload_j(plain_recs) }));
+            one_glob(cx, &mut env, g, &files, &RtOpts { shards: if variant == 2 { None } else { Some(1 + variant % 3) }, per: 2, par: false });
             ngl += 1;
         }
     }
     cx.exhaustive_blocks.push(format!("GLOB: read_jsonl(dir/*), read_csv(dir/*), read_cloud_jsonl_glob(g/*) over a directory holding one file per extension (rotating case variants and writer entry points) plus a neutral file = {ngl} cases"));
 
+    lap(cx, &mut t, "glob");
+    // ---- (2b) the registry as state (child processes), concurrent use of the compression layer ----
+    registry_children(cx);
+    lap(cx, &mut t, "registry-children");
+    conc_detect(cx, 8, cx.budget(150, 600));
+    lap(cx, &mut t, "conc-detect");
+    conc_rt(cx, &mut env);
+
+    lap(cx, &mut t, "registry+conc");
     // ---- (3) random block ----
-    let rounds = if cx.tier == crate::ctx::Tier::Search { 12000 } else { cx.budget(1500, 60000) };
+    let rounds = if cx.tier == crate::ctx::Tier::Search { 12000 } else { cx.budget(1500, 40000) };
     for _ in 0..rounds {
         let name = gen_name(cx);
         match cx.rng.below(10) {
@@ -1077,14 +1960,17 @@ pub fn run(cx: &mut Ctx) {
                 one_detect(cx, &name, &c);
             }
             6 => {
-                // a source with a random read schedule; content: bytes around signatures or a genuine stream
+                // a source with a random read schedule; content: bytes around signatures or a genuine stream;
+                // under a neutral name every third source also raises faults while the head is collected
                 let c = if cx.rng.chance(1, 2) { gen_bytes(cx, &contents) } else {
                     let recs = gen_rows(cx, 3);
-                    enc(SPEC[cx.rng.below(4)].0, &jsonl_plain(&recs))
+                    let c = SPEC[cx.rng.below(4)].0;
+                    if codec_ok(c) { enc(c, &jsonl_plain(&recs)) } else { jsonl_plain(&recs) }
                 };
                 let k = cx.rng.below(5);
                 let sched: Vec<usize> = (0..k).map(|_| *cx.rng.pick(&[1usize, 1, 2, 3, 5, 6, 7, 100])).collect();
-                one_detect_sched(cx, &name, &c, &sched);
+                let faults = if spec_ext(&name).is_none() && cx.rng.chance(1, 3) { let e = cx.rng.chance(1, 3); gen_head_faults(cx, e) } else { vec![] };
+                one_detect_sched(cx, &name, &c, &sched, &faults);
                 if cx.rng.chance(1, 6) { gen_glob(cx, &mut env); }
             }
             7 => {
@@ -1103,17 +1989,32 @@ pub fn run(cx: &mut Ctx) {
                     one_rd(cx, &mut env, r, &name, codec, &payload_j(recs), &o);
                 } else {
                     let r = *cx.rng.pick(&C_READERS);
-                    one_rd(cx, &mut env, r, &name, codec, &payload_c(recs, false), &o);
+                    let h = cx.rng.chance(1, 2);
+                    one_rd(cx, &mut env, r, &name, codec, &payload_c(recs, h), &o);
                 }
             }
         }
     }
+
+    lap(cx, &mut t, "random");
+    // run-quality notes (never verdicts)
+    for (c, _, _) in SPEC {
+        if !codec_ok(c) && !cx.notes.iter().any(|n| n.contains(&format!("the {c} library cannot be run"))) {
+            cx.notes.push(format!("the {c} library stopped working during the run (encoder creation failed three times in a row: memory?): the {c} cases after that point were SKIPPED (stat skipped:codec-unavailable)"));
+        }
+    }
+    let panics = cx.stats.get("rd:reader-panicked").copied().unwrap_or(0) + cx.stats.get("rt:reader-panicked").copied().unwrap_or(0);
+    if panics > 0 { cx.notes.push(format!("{panics} reads PANICKED instead of returning Err and were counted as failed reads (FAIL): a streaming source over a file its decoder rejects makes the runner panic with `cloneable source` (runner.rs); none of them is a case the property speaks about (the file is not a stream of the codec its name / first bytes announce)")); }
+    let unconf = cx.stats.get("unconfirmed-failure(not repeated on re-execution)").copied().unwrap_or(0);
+    if unconf > 0 { cx.notes.push(format!("{unconf} oracle failures did NOT repeat when the case was executed again and were dropped (transient environment trouble: disk, memory); every reported failure was seen twice")); }
+    let empties = cx.stats.get("rd:undecodable-file-read-as-empty-data-set-without-error(csv has_headers=true)").copied().unwrap_or(0);
+    if empties > 0 { cx.notes.push(format!("{empties} CSV reads with has_headers = true of a file the chosen decoder rejects returned Ok(EMPTY data set) instead of Err (the csv crate drops an I/O error met while it reads the header row); counted as failed reads, outside the property's statement")); }
 }
 
-/// a 24-character name that does not compress well
-fn big_name(cx: &mut Ctx) -> String {
+/// a name of `len` characters that does not compress well
+fn big_name(cx: &mut Ctx, len: usize) -> String {
     const A: &[u8] = b"abcdefghijklmnopqrstuvwxyzABCDEFGHIJKLMNOPQRSTUVWXYZ0123456789";
-    (0..24).map(|_| A[cx.rng.below(A.len())] as char).collect()
+    (0..len).map(|_| A[cx.rng.below(A.len())] as char).collect()
 }
 
 /// a random directory of 1..4 files with random names (no '/'), writers and payloads, read through a glob
@@ -1138,7 +2039,6 @@ fn gen_glob(cx: &mut Ctx, env: &mut Env) {
     // csv: one header flag for the whole directory (read_csv applies it to every file)
     let nmax = files.iter().map(|f| f.2.recs.as_ref().map_or(0, Vec::len)).max().unwrap_or(0);
     let o = gen_opts(cx, nmax.max(1));
-    let o = RtOpts { shards: 1 + o.shards % 2, ..o };
     one_glob(cx, env, g, &files, &o);
 }
 
